@@ -1,2207 +1,5 @@
 /-
-Helper lemmas for C18 / C23 about GrpcModel.RetryLoop (withRetry, replay buffer, attempts).
+Helper lemmas for C18 / C23 about GrpcModel.RetryLoop: parts A (replay invariant, op(a), retryLocked pieces),
+B (withRetry, frames, fuel), C (size / delivery / attempt-bound invariants), D (operation level), E (finish exactly once), F (concurrent SendMsg / RecvMsg).
 -/
-import GrpcModel.Model.RetryLoop
-import GrpcProofs.Lemmas.Retry
-namespace GrpcProofs.Lemmas.RetryLoop
-open GrpcModel.Retry GrpcModel.RetryLoop GrpcProofs.Lemmas.Retry
-
-/-! ### lists -/
-
-theorem getLast?_eq_some_split {α} (l : List α) (a : α) (h : l.getLast? = some a) : l = l.dropLast ++ [a] := by
-  have := List.dropLast_append_getLast? (l := l) a (by simpa using h)
-  exact this.symm
-
-/-! ### updCur -/
-
-theorem updCur_none (st : St) (f : Att → Att) (h : st.cur = none) : st.updCur f = st := by
-  unfold St.updCur; unfold St.cur at h; rw [h]
-
-theorem updCur_some (st : St) (f : Att → Att) (a : Att) (h : st.cur = some a) :
-    st.updCur f = { st with atts := st.atts.dropLast ++ [f a] } := by
-  unfold St.updCur; unfold St.cur at h; rw [h]
-
-theorem updCur_cur (st : St) (f : Att → Att) (a : Att) (h : st.cur = some a) : (st.updCur f).cur = some (f a) := by
-  rw [updCur_some st f a h]; simp [St.cur]
-
-theorem updCur_length (st : St) (f : Att → Att) : (st.updCur f).atts.length = st.atts.length := by
-  cases h : st.cur with
-  | none => rw [updCur_none st f h]
-  | some a =>
-    rw [updCur_some st f a h]
-    have := getLast?_eq_some_split st.atts a h
-    conv_rhs => rw [this]
-    simp
-
-/-- membership after updating the current attempt -/
-theorem mem_updCur (st : St) (f : Att → Att) (x : Att) (hx : x ∈ (st.updCur f).atts) :
-    x ∈ st.atts ∨ ∃ a, st.cur = some a ∧ x = f a := by
-  cases h : st.cur with
-  | none => rw [updCur_none st f h] at hx; exact Or.inl hx
-  | some a =>
-    rw [updCur_some st f a h] at hx
-    simp only [List.mem_append, List.mem_singleton] at hx
-    rcases hx with hx | hx
-    · exact Or.inl (List.mem_of_mem_dropLast hx)
-    · exact Or.inr ⟨a, rfl, hx⟩
-
-theorem cur_mem (st : St) (a : Att) (h : st.cur = some a) : a ∈ st.atts :=
-  List.mem_of_getLast? h
-
-/-! ### replay invariant -/
-
-/-- replay invariant with the current op's item still pending: `pb` not yet in the buffer, `pc` not yet
-    written on the (live) current attempt. -/
-structure RInv (st : St) (pb pc : List Wire) : Prop where
-  buf : st.cs.committed = false → wireOf st.clientStreams st.replay ++ pb = st.hist
-  pre : ∀ a ∈ st.atts, a.log <+: st.hist
-  cur : ∀ a, st.cur = some a → a.dead = false → a.log ++ pc = st.hist
-  once : st.cs.committed = false → st.started = true → startsOnce st.replay = true
-
-theorem wireOf_append (c : Bool) (r1 r2 : List ROp) : wireOf c (r1 ++ r2) = wireOf c r1 ++ wireOf c r2 := by
-  induction r1 with
-  | nil => rfl
-  | cons o r ih => cases o <;> simp [wireOf, ih]
-
-theorem commit_rinv (st : St) (pb pc : List Wire) (h : RInv st pb pc) (pb' : List Wire := pb) : RInv st.commit pb' pc := by
-  refine ⟨?_, h.pre, h.cur, ?_⟩
-  · intro hc; simp [St.commit] at hc
-  · intro hc; simp [St.commit] at hc
-
-theorem commit_committed (st : St) : st.commit.cs.committed = true := rfl
-
-/-- any change of the current attempt that keeps its log and can only kill it -/
-theorem updCur_rinv (st : St) (f : Att → Att) (pb pc : List Wire) (h : RInv st pb pc)
-    (hlog : ∀ a, (f a).log = a.log) (hdead : ∀ a, a.dead = true → (f a).dead = true) :
-    RInv (st.updCur f) pb pc := by
-  cases hc : st.cur with
-  | none => rw [updCur_none st f hc]; exact h
-  | some a =>
-    have hcur := updCur_cur st f a hc
-    rw [updCur_some st f a hc] at hcur ⊢
-    refine ⟨h.buf, ?_, ?_, h.once⟩
-    · intro x hx
-      simp only [List.mem_append, List.mem_singleton] at hx
-      rcases hx with hx | hx
-      · exact h.pre x (List.mem_of_mem_dropLast hx)
-      · subst hx; rw [hlog]; exact h.pre a (cur_mem st a hc)
-    · intro x hx hd
-      rw [hcur] at hx; injection hx with hx; subst hx
-      rw [hlog]
-      apply h.cur a hc
-      cases hda : a.dead with
-      | false => rfl
-      | true => rw [hdead a hda] at hd; cases hd
-
-theorem finishAttempt_rinv (st : St) (code : Nat) (pb pc : List Wire) (h : RInv st pb pc) :
-    RInv (st.finishAttempt code) pb pc := by
-  unfold St.finishAttempt
-  apply updCur_rinv st _ pb pc h
-  · intro a; split_ifs <;> rfl
-  · intro a hd
-    split_ifs
-    · exact hd
-    · simpa [Att.dead] using hd
-
-theorem mapAtts_rinv (st : St) (g : Att → Att) (pb pc : List Wire) (h : RInv st pb pc)
-    (hlog : ∀ a, (g a).log = a.log) (hdead : ∀ a, a.dead = true → (g a).dead = true) :
-    RInv { st with atts := st.atts.map g } pb pc := by
-  refine ⟨h.buf, ?_, ?_, h.once⟩
-  · intro x hx
-    simp only [List.mem_map] at hx
-    obtain ⟨a, ha, rfl⟩ := hx
-    rw [hlog]; exact h.pre a ha
-  · intro x hx hd
-    simp only [St.cur, List.getLast?_map] at hx
-    cases hc : st.atts.getLast? with
-    | none => rw [hc] at hx; cases hx
-    | some a =>
-      rw [hc] at hx; simp only [Option.map_some, Option.some.injEq] at hx; subst hx
-      rw [hlog]
-      apply h.cur a hc
-      cases hda : a.dead with
-      | false => rfl
-      | true => rw [hdead a hda] at hd; cases hd
-
-theorem react_rinv (st : St) (pb pc : List Wire) (h : RInv st pb pc) :
-    RInv { st with atts := react st.atts } pb pc := by
-  unfold react
-  apply mapAtts_rinv st _ pb pc h
-  · intro a; split_ifs <;> rfl
-  · intro a hd
-    split_ifs with hc
-    · simp only [Att.dead, Bool.or_eq_true, Bool.and_eq_true] at hd ⊢
-      simp only [Bool.and_eq_true, Bool.not_eq_true', bne_iff_ne, ne_eq] at hc
-      right; exact ⟨trivial, by simpa using hc.1.2⟩
-    · exact hd
-
-theorem settle_rinv (st : St) (pb pc : List Wire) (h : RInv st pb pc) : RInv st.settle pb pc :=
-  react_rinv st pb pc h
-
-theorem write_dead (st : St) (w : Wire) (h : st.curDead = true) : st.write w = (st, false, []) := by
-  simp [St.write, h]
-
-theorem write_alive (st : St) (w : Wire) (h : st.curDead = false) :
-    (st.write w).1 = st.updCur (fun a => { a with log := a.log ++ [w] }) ∧ (st.write w).2.1 = true := by
-  simp [St.write, h]
-
-theorem curDead_false_iff (st : St) : st.curDead = false ↔ ∃ a, st.cur = some a ∧ a.dead = false := by
-  unfold St.curDead
-  cases st.cur with
-  | none => simp
-  | some a => simp
-
-/-- facts every primitive below keeps -/
-structure Same (st st' : St) : Prop where
-  cs : st'.cs = st.cs
-  replay : st'.replay = st.replay
-  hist : st'.hist = st.hist
-  cstr : st'.clientStreams = st.clientStreams
-  started : st'.started = st.started
-  seq : st'.seq = st.seq
-  pol : st'.pol = st.pol
-  dis : st'.disableRetry = st.disableRetry
-  maxBuf : st'.maxBuf = st.maxBuf
-  rsize : st'.replaySize = st.replaySize
-  len : st'.atts.length = st.atts.length
-
-theorem Same.rfl' (st : St) : Same st st := ⟨rfl, rfl, rfl, rfl, rfl, rfl, rfl, rfl, rfl, rfl, rfl⟩
-
-theorem Same.trans {a b c : St} (h1 : Same a b) (h2 : Same b c) : Same a c :=
-  ⟨h2.cs.trans h1.cs, h2.replay.trans h1.replay, h2.hist.trans h1.hist, h2.cstr.trans h1.cstr,
-   h2.started.trans h1.started, h2.seq.trans h1.seq, h2.pol.trans h1.pol, h2.dis.trans h1.dis,
-   h2.maxBuf.trans h1.maxBuf, h2.rsize.trans h1.rsize, h2.len.trans h1.len⟩
-
-theorem updCur_same (st : St) (f : Att → Att) : Same st (st.updCur f) := by
-  have hl := updCur_length st f
-  cases h : st.cur with
-  | none => rw [updCur_none st f h]; exact Same.rfl' st
-  | some a => rw [updCur_some st f a h] at hl ⊢; exact ⟨rfl, rfl, rfl, rfl, rfl, rfl, rfl, rfl, rfl, rfl, hl⟩
-
-theorem write_alive_rinv (st : St) (w : Wire) (pb pc : List Wire) (hd : st.curDead = false)
-    (h : RInv st pb (w :: pc)) :
-    RInv (st.write w).1 pb pc ∧ (st.write w).1.curDead = false ∧ Same st (st.write w).1 := by
-  obtain ⟨a, hc, had⟩ := (curDead_false_iff st).mp hd
-  have hsame : Same st (st.write w).1 := by rw [(write_alive st w hd).1]; exact updCur_same st _
-  rw [(write_alive st w hd).1, updCur_some st _ a hc]
-  have hlog : a.log ++ w :: pc = st.hist := h.cur a hc had
-  refine ⟨⟨h.buf, ?_, ?_, h.once⟩, ?_, ?_⟩
-  · intro x hx
-    simp only [List.mem_append, List.mem_singleton] at hx
-    rcases hx with hx | hx
-    · exact h.pre x (List.mem_of_mem_dropLast hx)
-    · subst hx
-      simp only
-      rw [← hlog]
-      exact ⟨pc, by simp⟩
-  · intro x hx _
-    simp only [St.cur, List.getLast?_append, List.getLast?_singleton, Option.some_or, Option.some.injEq] at hx
-    subst hx
-    simp only
-    rw [← hlog]; simp
-  · simp only [St.curDead, St.cur, List.getLast?_append, List.getLast?_singleton, Option.some_or]
-    simpa [Att.dead] using had
-  · rw [(write_alive st w hd).1, updCur_some st _ a hc] at hsame; exact hsame
-
-theorem startsOnce_append (r : List ROp) (op : ROp) (h : startsOnce r = true) (hop : op ≠ .start) :
-    startsOnce (r ++ [op]) = true := by
-  cases r with
-  | nil => simp [startsOnce] at h
-  | cons o r =>
-    cases o with
-    | start =>
-      simp only [startsOnce, Bool.not_eq_true', List.cons_append] at h ⊢
-      simp only [List.contains_eq_mem, List.mem_append, List.mem_singleton, decide_eq_false_iff_not] at h ⊢
-      intro hc; rcases hc with hc | hc
-      · exact h hc
-      · exact hop hc.symm
-    | msg q z => simp [startsOnce] at h
-    | half => simp [startsOnce] at h
-
-theorem buffer_rinv (st : St) (sz : Int) (op : ROp) (pc : List Wire) (hop : op ≠ .start)
-    (h : RInv st (wireOf st.clientStreams [op]) pc) : RInv (st.buffer sz op) [] pc := by
-  simp only [St.buffer]
-  split_ifs with hc hsz
-  · exact ⟨fun hf => by simp [hc] at hf, h.pre, h.cur, fun hf => by simp [hc] at hf⟩
-  · exact commit_rinv { st with replaySize := st.replaySize + sz } _ pc ⟨h.buf, h.pre, h.cur, h.once⟩ []
-  · have hc' : st.cs.committed = false := by simpa using hc
-    refine ⟨?_, h.pre, h.cur, ?_⟩
-    · intro _
-      simp only [List.append_nil]
-      rw [wireOf_append]; exact h.buf hc'
-    · intro _ hs
-      exact startsOnce_append _ _ (h.once hc' hs) hop
-
-/-- the state after appending `ws` to the log of the current attempt `a` -/
-def withLog (s : St) (a : Att) (ws : List Wire) : St :=
-  { s with atts := s.atts.dropLast ++ [{ a with log := a.log ++ ws }] }
-
-theorem withLog_cur (s : St) (a : Att) (ws : List Wire) : (withLog s a ws).cur = some { a with log := a.log ++ ws } := by
-  simp [withLog, St.cur]
-
-theorem withLog_withLog (s : St) (a : Att) (w1 w2 : List Wire) :
-    withLog (withLog s a w1) { a with log := a.log ++ w1 } w2 = withLog s a (w1 ++ w2) := by
-  simp [withLog, List.append_assoc]
-
-theorem write_withLog (s : St) (a : Att) (ws : List Wire) (w : Wire) (had : a.dead = false) :
-    ((withLog s a ws).write w).1 = withLog s a (ws ++ [w]) := by
-  have hc := withLog_cur s a ws
-  have hd : (withLog s a ws).curDead = false := by
-    rw [curDead_false_iff]; exact ⟨_, hc, by simpa [Att.dead] using had⟩
-  rw [(write_alive _ w hd).1, updCur_some _ _ _ hc]
-  simp [withLog, List.append_assoc]
-
-theorem replayFold_rest (rest : List ROp) (hns : rest.contains .start = false) (s : St) (a : Att) (ws : List Wire)
-    (had : a.dead = false) (evs : List Ev) :
-    (rest.foldl (fun (acc : St × List Ev) op =>
-      let (s, evs) := acc
-      match op with
-      | .start => let (s', e) := s.newAttempt; (s', evs ++ e)
-      | .msg q z =>
-        let (s', _, e) := s.write (.msg q z)
-        if s.clientStreams then (s', evs ++ e)
-        else let (s'', _, e2) := s'.write .half; (s'', evs ++ e ++ e2)
-      | .half => let (s', _, e) := s.write .half; (s', evs ++ e)) (withLog s a ws, evs)).1
-    = withLog s a (ws ++ wireOf s.clientStreams rest) := by
-  induction rest generalizing ws evs with
-  | nil => simp [wireOf]
-  | cons o rest ih =>
-    have hns' : rest.contains .start = false := by
-      simp only [List.contains_cons, Bool.or_eq_false_iff] at hns; exact hns.2
-    cases o with
-    | start => simp at hns
-    | msg q z =>
-      simp only [List.foldl_cons]
-      have hcs : (withLog s a ws).clientStreams = s.clientStreams := rfl
-      cases hk : s.clientStreams with
-      | true =>
-        simp only [hcs, hk, if_true]
-        have h1 := write_withLog s a ws (.msg q z) had
-        have := ih hns' (ws ++ [.msg q z]) (evs ++ ((withLog s a ws).write (.msg q z)).2.2)
-        rw [← h1] at this
-        simp only [hk] at this
-        rw [this]; simp [wireOf, List.append_assoc]
-      | false =>
-        simp only [hcs, hk, Bool.false_eq_true, if_false]
-        have h1 := write_withLog s a ws (.msg q z) had
-        have h2 := write_withLog s a (ws ++ [.msg q z]) .half had
-        rw [← h1] at h2
-        have := ih hns' (ws ++ [.msg q z] ++ [.half])
-          (evs ++ ((withLog s a ws).write (.msg q z)).2.2 ++ (((withLog s a ws).write (.msg q z)).1.write .half).2.2)
-        rw [← h2] at this
-        simp only [hk] at this
-        rw [this]; simp [wireOf, List.append_assoc]
-    | half =>
-      simp only [List.foldl_cons]
-      have h1 := write_withLog s a ws .half had
-      have := ih hns' (ws ++ [.half]) (evs ++ ((withLog s a ws).write .half).2.2)
-      rw [← h1] at this
-      rw [this]; simp [wireOf, List.append_assoc]
-
-/-- the attempt a retry creates -/
-def freshAtt (st : St) : Att :=
-  { beh := (st.script.drop st.atts.length).headD Beh.dflt, prev := st.cs.numRetries, log := [] }
-
-theorem freshAtt_alive (st : St) : (freshAtt st).dead = false := by simp [freshAtt, Att.dead]
-
-theorem replayAll_spec (st : St) (rest : List ROp) (hr : st.replay = .start :: rest)
-    (hns : rest.contains .start = false) :
-    st.replayAll.1 =
-      { st with atts := st.atts ++ [{ freshAtt st with log := wireOf st.clientStreams rest }] } := by
-  unfold St.replayAll
-  rw [hr, List.foldl_cons]
-  have h0 : (st.newAttempt).1 = withLog { st with atts := st.atts ++ [freshAtt st] } (freshAtt st) [] := by
-    simp [St.newAttempt, withLog, freshAtt]
-  have := replayFold_rest rest hns { st with atts := st.atts ++ [freshAtt st] } (freshAtt st) [] (freshAtt_alive st)
-    ([] ++ (st.newAttempt).2)
-  rw [← h0] at this
-  simp only at this ⊢
-  refine this.trans ?_
-  simp [withLog, freshAtt, hr]
-
-/-! ### op(a) -/
-
-theorem react_same (st : St) : Same st { st with atts := react st.atts } :=
-  ⟨rfl, rfl, rfl, rfl, rfl, rfl, rfl, rfl, rfl, rfl, by simp [react]⟩
-
-theorem react_cur_dead (st : St) (a : Att) (h : ({ st with atts := react st.atts } : St).cur = some a) (hd : a.dead = true) :
-    ({ st with atts := react st.atts } : St).curDead = true := by
-  simp [St.curDead, h, hd]
-
-/-- `op(a)`: either the op's item reached a live attempt, or the attempt was dead and nothing
-    moved, or (recv/header) only reactions / read counters changed. -/
-theorem applyOp_rinv (st : St) (op : COp) (h : RInv st (st.pendOf op) (st.pendOf op)) :
-    Same st (st.applyOp op).1 ∧
-    ((st.applyOp op).2.1.isFail = true → (st.applyOp op).1.curDead = true ∧ RInv (st.applyOp op).1 (st.pendOf op) (st.pendOf op)) ∧
-    ((st.applyOp op).2.1.isFail = false → RInv (st.applyOp op).1 (st.pendOf op) []) := by
-  cases op with
-  | send size =>
-    simp only [St.applyOp]
-    cases hd : st.curDead with
-    | true =>
-      rw [write_dead st _ hd]
-      exact ⟨Same.rfl' st, fun _ => ⟨hd, h⟩, fun hne => by simp [Raw.isFail] at hne⟩
-    | false =>
-      cases hk : st.clientStreams with
-      | true =>
-        have h' : RInv st (st.pendOf (.send size)) (Wire.msg (if size = 0 then 0 else st.seq) size :: []) := by
-          simpa [St.pendOf, hk] using h
-        obtain ⟨hi, _, hs⟩ := write_alive_rinv st _ _ [] hd h'
-        have hw := (write_alive st (Wire.msg (if size = 0 then 0 else st.seq) size) hd).2
-        simp only [hw, Bool.not_true, Bool.false_eq_true, if_false, if_true]
-        exact ⟨hs, fun hc => by simp [Raw.isFail] at hc, fun _ => hi⟩
-      | false =>
-        have h' : RInv st (st.pendOf (.send size)) (Wire.msg (if size = 0 then 0 else st.seq) size :: [Wire.half]) := by
-          simpa [St.pendOf, hk] using h
-        obtain ⟨hi, hd1, hs1⟩ := write_alive_rinv st _ _ [Wire.half] hd h'
-        obtain ⟨hi2, _, hs2⟩ := write_alive_rinv _ Wire.half _ [] hd1 hi
-        have hw := (write_alive st (Wire.msg (if size = 0 then 0 else st.seq) size) hd).2
-        simp only [hw, Bool.not_true, Bool.false_eq_true, if_false]
-        exact ⟨hs1.trans hs2, fun hc => by simp [Raw.isFail] at hc, fun _ => hi2⟩
-  | half =>
-    simp only [St.applyOp]
-    cases hd : st.curDead with
-    | true =>
-      rw [write_dead st _ hd]
-      refine ⟨Same.rfl' st, fun hc => by simp [Raw.isFail] at hc, fun _ => ?_⟩
-      refine ⟨h.buf, h.pre, ?_, h.once⟩
-      intro a hc had
-      have : st.curDead = false := (curDead_false_iff st).mpr ⟨a, hc, had⟩
-      rw [hd] at this; cases this
-    | false =>
-      have h' : RInv st (st.pendOf .half) (Wire.half :: []) := by simpa [St.pendOf] using h
-      obtain ⟨hi, _, hs⟩ := write_alive_rinv st _ _ [] hd h'
-      exact ⟨hs, fun hc => by simp [Raw.isFail] at hc, fun _ => hi⟩
-  | recv =>
-    have hr := react_rinv st _ _ h
-    have hsr := react_same st
-    simp only [St.applyOp]
-    cases hc : ({ st with atts := react st.atts } : St).cur with
-    | none => exact ⟨hsr, fun hf => by simp [Raw.isFail] at hf, fun _ => ⟨hr.buf, hr.pre, hr.cur, hr.once⟩⟩
-    | some a =>
-      simp only
-      cases had : a.dead with
-      | false => exact ⟨hsr, fun hf => by simp [Raw.isFail] at hf, fun _ => ⟨hr.buf, hr.pre, hr.cur, hr.once⟩⟩
-      | true =>
-        have hcd := react_cur_dead st a hc had
-        have hupd := updCur_rinv _ (fun a => { a with respRead := 1 }) _ _ hr (fun _ => rfl)
-          (fun a hd => by simpa [Att.dead] using hd)
-        have hupds := hsr.trans (updCur_same _ (fun a => { a with respRead := 1 }))
-        simp only [Bool.not_true, Bool.false_eq_true, if_false]
-        repeat' (first | split_ifs | split)
-        all_goals
-          refine ⟨?_, ?_, ?_⟩
-          · first
-              | exact hsr
-              | exact hupds.trans ⟨rfl, rfl, rfl, rfl, rfl, rfl, rfl, rfl, rfl, rfl, rfl⟩
-          · intro hf
-            first
-              | (simp [Raw.isFail] at hf; done)
-              | exact ⟨hcd, hr⟩
-          · intro hf
-            first
-              | (simp [Raw.isFail] at hf; done)
-              | exact ⟨hr.buf, hr.pre, hr.cur, hr.once⟩
-              | exact ⟨hupd.buf, hupd.pre, hupd.cur, hupd.once⟩
-  | header =>
-    have hr := react_rinv st _ _ h
-    have hsr := react_same st
-    simp only [St.applyOp]
-    cases hc : ({ st with atts := react st.atts } : St).cur with
-    | none => exact ⟨hsr, fun hf => by simp [Raw.isFail] at hf, fun _ => ⟨hr.buf, hr.pre, hr.cur, hr.once⟩⟩
-    | some a =>
-      simp only
-      cases had : a.dead with
-      | false => exact ⟨hsr, fun hf => by simp [Raw.isFail] at hf, fun _ => ⟨hr.buf, hr.pre, hr.cur, hr.once⟩⟩
-      | true =>
-        have hcd := react_cur_dead st a hc had
-        simp only [Bool.not_true, Bool.false_eq_true, if_false]
-        repeat' (first | split_ifs | split)
-        all_goals
-          refine ⟨hsr, ?_, ?_⟩
-          · intro hf
-            first
-              | (simp [Raw.isFail] at hf; done)
-              | exact ⟨hcd, hr⟩
-          · intro hf
-            first
-              | (simp [Raw.isFail] at hf; done)
-              | exact ⟨hr.buf, hr.pre, hr.cur, hr.once⟩
-
-/-! ### retryLocked pieces -/
-
-theorem rinv_dead_pc (st : St) (pb pc pc' : List Wire) (hd : st.curDead = true) (h : RInv st pb pc) : RInv st pb pc' := by
-  refine ⟨h.buf, h.pre, ?_, h.once⟩
-  intro a hc had
-  have : st.curDead = false := (curDead_false_iff st).mpr ⟨a, hc, had⟩
-  rw [hd] at this; cases this
-
-theorem rinv_committed_pb (st : St) (pb pb' pc : List Wire) (hc : st.cs.committed = true) (h : RInv st pb pc) : RInv st pb' pc := by
-  refine ⟨?_, h.pre, h.cur, ?_⟩
-  · intro hf; rw [hc] at hf; cases hf
-  · intro hf; rw [hc] at hf; cases hf
-
-/-- `onSuccess` after the op's item went out (or was refused by an OK-closed stream). -/
-theorem onSuccess_rinv (st st1 : St) (op : COp) (pc : List Wire) (hs : Same st st1)
-    (h : RInv st1 (st.pendOf op) pc) : RInv (st1.onSuccess op) [] pc := by
-  cases op with
-  | send size =>
-    simp only [St.onSuccess]
-    apply buffer_rinv _ _ _ _ (by simp)
-    simpa [wireOf, St.pendOf, hs.seq, hs.cstr] using h
-  | half =>
-    simp only [St.onSuccess]
-    apply buffer_rinv _ _ _ _ (by simp)
-    simpa [wireOf, St.pendOf] using h
-  | recv => exact commit_rinv _ _ _ h []
-  | header => exact commit_rinv _ _ _ h []
-
-theorem finishAttempt_same (st : St) (code : Nat) : Same st (st.finishAttempt code) := updCur_same st _
-
-theorem curDead_true_iff (st : St) : st.curDead = true ↔ ∀ a, st.cur = some a → a.dead = true := by
-  unfold St.curDead
-  cases st.cur with
-  | none => simp
-  | some a => simp
-
-theorem finishAttempt_keeps_dead (st : St) (code : Nat) (h : st.curDead = true) : (st.finishAttempt code).curDead = true := by
-  unfold St.finishAttempt
-  cases hc : st.cur with
-  | none => rw [updCur_none st _ hc]; exact h
-  | some a =>
-    have had := (curDead_true_iff st).mp h a hc
-    simp only [St.curDead, updCur_cur st _ a hc]
-    split_ifs
-    · exact had
-    · simpa [Att.dead] using had
-
-theorem cs_swap_rinv (st : St) (cs' : CS) (pb pc : List Wire) (h : RInv st pb pc) (hc : cs'.committed = st.cs.committed) :
-    RInv { st with cs := cs' } pb pc :=
-  ⟨fun hf => h.buf (hc ▸ hf), h.pre, h.cur, fun hf hs => h.once (hc ▸ hf) hs⟩
-
-/-- everything but `cs` and the attempts' bookkeeping is kept by the decision step -/
-structure SameD (st st' : St) : Prop where
-  committed : st'.cs.committed = st.cs.committed
-  replay : st'.replay = st.replay
-  hist : st'.hist = st.hist
-  cstr : st'.clientStreams = st.clientStreams
-  started : st'.started = st.started
-  seq : st'.seq = st.seq
-  pol : st'.pol = st.pol
-  dis : st'.disableRetry = st.disableRetry
-  maxBuf : st'.maxBuf = st.maxBuf
-  rsize : st'.replaySize = st.replaySize
-  len : st'.atts.length = st.atts.length
-
-theorem decideRetry_rinv (st : St) (raw : Raw) (pb pc : List Wire) (h : RInv st pb pc) (hd : st.curDead = true) :
-    RInv (st.decideRetry raw).1 pb pc ∧ (st.decideRetry raw).1.curDead = true ∧ SameD st (st.decideRetry raw).1 := by
-  have h2 := finishAttempt_rinv st raw.code pb pc h
-  have hd2 := finishAttempt_keeps_dead st raw.code hd
-  have hs2 := finishAttempt_same st raw.code
-  simp only [St.decideRetry]
-  split
-  · exact ⟨h2, hd2, ⟨by rw [hs2.cs], hs2.replay, hs2.hist, hs2.cstr, hs2.started, hs2.seq, hs2.pol, hs2.dis, hs2.maxBuf, hs2.rsize, hs2.len⟩⟩
-  next a hc =>
-    have hf := sr_other_fields (st.finishAttempt raw.code).disableRetry
-      (st.finishAttempt raw.code).pol
-      (st.finishAttempt raw.code).cs (attemptView a) 0
-    refine ⟨cs_swap_rinv _ _ pb pc h2 hf.2.2.1, ?_, ⟨?_, hs2.replay, hs2.hist, hs2.cstr, hs2.started, hs2.seq, hs2.pol, hs2.dis, hs2.maxBuf, hs2.rsize, hs2.len⟩⟩
-    · simpa [St.curDead, St.cur] using hd2
-    · simp only; rw [hf.2.2.1, hs2.cs]
-
-theorem afterDecision_committed (cs : CS) (d : Decision) : (afterDecision cs d).committed = cs.committed := by
-  cases d <;> rfl
-
-theorem wireOf_start (c : Bool) (r : List ROp) : wireOf c (.start :: r) = wireOf c r := rfl
-
-theorem startsOnce_split (r : List ROp) (h : startsOnce r = true) : ∃ rest, r = .start :: rest ∧ rest.contains .start = false := by
-  cases r with
-  | nil => simp [startsOnce] at h
-  | cons o r =>
-    cases o with
-    | start => exact ⟨r, rfl, by simpa [startsOnce] using h⟩
-    | msg q z => simp [startsOnce] at h
-    | half => simp [startsOnce] at h
-
-/-- a retry: the new attempt carries exactly the buffer, i.e. the application's history before the op. -/
-theorem startRetry_rinv (st : St) (d : Decision) (pb pc : List Wire) (h : RInv st pb pc)
-    (hu : st.cs.committed = false) (hst : st.started = true) :
-    RInv (st.startRetry d).1 pb pb ∧ (st.startRetry d).1.curDead = false ∧
-    (∃ a, (st.startRetry d).1.atts = st.atts ++ [a] ∧ a.log = wireOf st.clientStreams st.replay ∧ a.prev = (afterDecision st.cs d).numRetries) ∧
-    (st.startRetry d).1.cs = afterDecision st.cs d ∧
-    (st.startRetry d).1.replay = st.replay ∧ (st.startRetry d).1.hist = st.hist ∧
-    (st.startRetry d).1.clientStreams = st.clientStreams ∧ (st.startRetry d).1.started = st.started ∧
-    (st.startRetry d).1.seq = st.seq ∧ (st.startRetry d).1.pol = st.pol ∧ (st.startRetry d).1.disableRetry = st.disableRetry ∧
-    (st.startRetry d).1.maxBuf = st.maxBuf ∧ (st.startRetry d).1.replaySize = st.replaySize := by
-  obtain ⟨rest, hr, hns⟩ := startsOnce_split st.replay (h.once hu hst)
-  unfold St.startRetry
-  have hspec := replayAll_spec { st with cs := afterDecision st.cs d } rest hr hns
-  rw [hspec]
-  have hbuf := h.buf hu
-  refine ⟨⟨?_, ?_, ?_, ?_⟩, ?_, ⟨_, rfl, ?_, rfl⟩, rfl, rfl, rfl, rfl, rfl, rfl, rfl, rfl, rfl, rfl⟩
-  · intro _; exact hbuf
-  · intro x hx
-    simp only [List.mem_append, List.mem_singleton] at hx
-    rcases hx with hx | hx
-    · exact h.pre x hx
-    · subst hx
-      simp only
-      rw [← hbuf, hr, wireOf_start]
-      exact ⟨pb, rfl⟩
-  · intro x hx _
-    simp only [St.cur, List.getLast?_append, List.getLast?_singleton, Option.some_or, Option.some.injEq] at hx
-    subst hx
-    simp only
-    rw [← hbuf, hr, wireOf_start]
-  · intro hf hs; simp only at hf hs; exact h.once hu hst
-  · simp [St.curDead, St.cur, Att.dead, freshAtt]
-  · simp only; rw [hr, wireOf_start]
-
-/-! ### withRetry -/
-
-theorem applyOp_blocks_pend (st : St) (op : COp) (h : (st.applyOp op).2.1 = .blocks) : st.pendOf op = [] := by
-  cases op with
-  | send size =>
-    simp only [St.applyOp] at h
-    split_ifs at h
-  | half => simp [St.applyOp] at h
-  | recv => rfl
-  | header => rfl
-
-theorem classify_blocked (st : St) (raw : Raw) (h : st.classify raw = .blocked) : raw = .blocks := by
-  cases raw <;> simp [St.classify] at h ⊢
-  split_ifs at h
-
-theorem classify_failure (st : St) (raw : Raw) (h : st.classify raw = .failure) : raw.isFail = true := by
-  cases raw <;> simp [St.classify, Raw.isFail] at h ⊢
-
-theorem commit_curDead (st : St) : st.commit.curDead = st.curDead := rfl
-
-theorem pendOf_congr (st st' : St) (op : COp) (h1 : st'.seq = st.seq) (h2 : st'.clientStreams = st.clientStreams) :
-    st'.pendOf op = st.pendOf op := by
-  cases op <;> simp [St.pendOf, h1, h2]
-
-/-- what `withRetry` does before a possible recursive call, for the replay invariant -/
-theorem withRetry_rinv_step (st : St) (op : COp) (hst : st.started = true)
-    (h : RInv st (st.pendOf op) (st.pendOf op))
-    (K : St → Decision → St × Res × List Ev × List Delay)
-    (hK : ∀ st3 d, st3.started = true → st3.cs.committed = false → st3.seq = st.seq → st3.clientStreams = st.clientStreams →
-        RInv st3 (st.pendOf op) (st.pendOf op) →
-        (K st3 d).2.1 = .outOfFuel ∨ RInv (K st3 d).1 [] []) :
-    let r := st.applyOp op
-    let out : St × Res × List Ev × List Delay :=
-      if st.cs.committed then (r.1, rawToRes r.2.1, r.2.2, [])
-      else match r.1.classify r.2.1 with
-        | .blocked => (r.1, .blocked, r.2.2, [])
-        | .success => (r.1.onSuccess op, rawToRes r.2.1, r.2.2, [])
-        | .failure =>
-          match (r.1.decideRetry r.2.1).2 with
-          | .noRetry => ((r.1.decideRetry r.2.1).1.commit, rawToRes r.2.1, r.2.2, [])
-          | .exhausted => ((r.1.decideRetry r.2.1).1.commit, (match r.2.1 with | .err c => .errExhausted c | _ => .exhaustedEof), r.2.2, [])
-          | d => K (r.1.decideRetry r.2.1).1 d
-    out.2.1 = .outOfFuel ∨ RInv out.1 [] [] := by
-  intro r out
-  obtain ⟨hsame, hfail, hok⟩ := applyOp_rinv st op h
-  have hr1 : r.1 = (st.applyOp op).1 := rfl
-  have hr2 : r.2.1 = (st.applyOp op).2.1 := rfl
-  by_cases hcm : st.cs.committed = true
-  · right
-    have hc1 : r.1.cs.committed = true := by rw [hr1, hsame.cs]; exact hcm
-    simp only [out, hcm, if_true]
-    cases hf : r.2.1.isFail with
-    | true =>
-      obtain ⟨hd, hi⟩ := hfail (hr2 ▸ hf)
-      exact rinv_committed_pb _ _ [] _ hc1 (rinv_dead_pc _ _ _ [] hd hi)
-    | false => exact rinv_committed_pb _ _ [] _ hc1 (hok (hr2 ▸ hf))
-  · have hu : st.cs.committed = false := by simpa using hcm
-    have hu1 : r.1.cs.committed = false := by rw [hr1, hsame.cs]; exact hu
-    simp only [out, hu, Bool.false_eq_true, if_false]
-    cases hcl : r.1.classify r.2.1 with
-    | blocked =>
-      right
-      simp only
-      have hb := classify_blocked _ _ hcl
-      have hp := applyOp_blocks_pend st op (hr2 ▸ hb)
-      have := hok (by rw [← hr2, hb]; rfl)
-      rw [hp] at this; exact this
-    | success =>
-      right
-      simp only
-      cases hf : r.2.1.isFail with
-      | true =>
-        obtain ⟨hd, hi⟩ := hfail (hr2 ▸ hf)
-        exact onSuccess_rinv st r.1 op [] hsame (rinv_dead_pc _ _ _ [] hd hi)
-      | false => exact onSuccess_rinv st r.1 op [] hsame (hok (hr2 ▸ hf))
-    | failure =>
-      simp only
-      have hf := classify_failure _ _ hcl
-      obtain ⟨hd, hi⟩ := hfail (hr2 ▸ hf)
-      obtain ⟨hi3, hd3, hs3⟩ := decideRetry_rinv r.1 r.2.1 _ _ hi hd
-      have hu3 : (r.1.decideRetry r.2.1).1.cs.committed = false := by rw [hs3.committed]; exact hu1
-      cases hdec : (r.1.decideRetry r.2.1).2 with
-      | noRetry =>
-        right
-        simp only
-        exact rinv_committed_pb _ _ [] _ rfl (rinv_dead_pc _ _ _ [] (by rw [commit_curDead]; exact hd3) (commit_rinv _ _ _ hi3))
-      | exhausted =>
-        right
-        simp only
-        exact rinv_committed_pb _ _ [] _ rfl (rinv_dead_pc _ _ _ [] (by rw [commit_curDead]; exact hd3) (commit_rinv _ _ _ hi3))
-      | transparent =>
-        simp only
-        exact hK _ _ (by rw [hs3.started, hr1, hsame.started]; exact hst) hu3
-          (by rw [hs3.seq, hr1, hsame.seq]) (by rw [hs3.cstr, hr1, hsame.cstr]) hi3
-      | backoff dur fp =>
-        simp only
-        exact hK _ _ (by rw [hs3.started, hr1, hsame.started]; exact hst) hu3
-          (by rw [hs3.seq, hr1, hsame.seq]) (by rw [hs3.cstr, hr1, hsame.cstr]) hi3
-
-/-- the continuation of `withRetry` after a positive decision -/
-def contK (fuel : Nat) (op : COp) (ev : List Ev) (st3 : St) (d : Decision) : St × Res × List Ev × List Delay :=
-  match fuel with
-  | 0 => (st3, .outOfFuel, ev, [])
-  | fuel + 1 =>
-    ((St.withRetry fuel (st3.startRetry d).1 op).1, (St.withRetry fuel (st3.startRetry d).1 op).2.1,
-     ev ++ (st3.startRetry d).2 ++ (St.withRetry fuel (st3.startRetry d).1 op).2.2.1,
-     st3.delayOf d ++ (St.withRetry fuel (st3.startRetry d).1 op).2.2.2)
-
-theorem withRetry_unfold (fuel : Nat) (st : St) (op : COp) :
-    St.withRetry fuel st op =
-      (if st.cs.committed then ((st.applyOp op).1, rawToRes (st.applyOp op).2.1, (st.applyOp op).2.2, [])
-      else match (st.applyOp op).1.classify (st.applyOp op).2.1 with
-        | .blocked => ((st.applyOp op).1, .blocked, (st.applyOp op).2.2, [])
-        | .success => ((st.applyOp op).1.onSuccess op, rawToRes (st.applyOp op).2.1, (st.applyOp op).2.2, [])
-        | .failure =>
-          match ((st.applyOp op).1.decideRetry (st.applyOp op).2.1).2 with
-          | .noRetry => (((st.applyOp op).1.decideRetry (st.applyOp op).2.1).1.commit, rawToRes (st.applyOp op).2.1, (st.applyOp op).2.2, [])
-          | .exhausted => (((st.applyOp op).1.decideRetry (st.applyOp op).2.1).1.commit,
-              (match (st.applyOp op).2.1 with | .err c => .errExhausted c | _ => .exhaustedEof), (st.applyOp op).2.2, [])
-          | d => contK fuel op (st.applyOp op).2.2 ((st.applyOp op).1.decideRetry (st.applyOp op).2.1).1 d) := by
-  cases fuel with
-  | zero =>
-    rw [St.withRetry]
-    split_ifs <;> rfl
-  | succ n =>
-    rw [St.withRetry]
-    simp only [contK]
-    split_ifs
-    · rfl
-    · cases (st.applyOp op).1.classify (st.applyOp op).2.1 with
-      | blocked => rfl
-      | success => rfl
-      | failure =>
-        simp only
-        cases ((st.applyOp op).1.decideRetry (st.applyOp op).2.1).2 <;> rfl
-
-theorem withRetry_rinv (fuel : Nat) (st : St) (op : COp) (hst : st.started = true)
-    (h : RInv st (st.pendOf op) (st.pendOf op)) :
-    (St.withRetry fuel st op).2.1 = .outOfFuel ∨ RInv (St.withRetry fuel st op).1 [] [] := by
-  induction fuel generalizing st with
-  | zero =>
-    rw [withRetry_unfold]
-    exact withRetry_rinv_step st op hst h (contK 0 op (st.applyOp op).2.2)
-      (fun st3 d _ _ _ _ _ => Or.inl rfl)
-  | succ n ih =>
-    rw [withRetry_unfold]
-    refine withRetry_rinv_step st op hst h (contK (n + 1) op (st.applyOp op).2.2) ?_
-    intro st3 d hs3 hu3 hseq hcs hi3
-    simp only [contK]
-    obtain ⟨hi5, _, _, hcs5, hr5, hh5, hc5, hst5, hq5, _⟩ := startRetry_rinv st3 d _ _ hi3 hu3 hs3
-    have hp : (st3.startRetry d).1.pendOf op = st.pendOf op :=
-      pendOf_congr st _ op (hq5.trans hseq) (hc5.trans hcs)
-    have := ih (st3.startRetry d).1 (hst5.trans hs3) (by rw [hp]; exact hi5)
-    exact this
-
-/-! ### frames and operation boundaries -/
-
-theorem finish_rinv (st : St) (code : Nat) (pb pc : List Wire) (h : RInv st pb pc) : RInv (st.finish code) pb pc := by
-  have h1 : RInv ({ st with cs := { st.cs with finished := true } } : St) pb pc := cs_swap_rinv st _ pb pc h rfl
-  have h2 := commit_rinv _ pb pc h1
-  have h3 := finishAttempt_rinv _ code pb pc h2
-  simp only [St.finish]
-  split_ifs
-  · exact h
-  · exact cs_swap_rinv _ _ pb pc h3 rfl
-  · exact h3
-
-theorem finish_started (st : St) (code : Nat) : (st.finish code).started = st.started := by
-  simp only [St.finish]
-  split_ifs
-  · rfl
-  · exact (finishAttempt_same _ _).started
-  · exact (finishAttempt_same _ _).started
-
-/-- what no part of `withRetry` touches -/
-structure Frame (st st' : St) : Prop where
-  started : st'.started = st.started
-  cstr : st'.clientStreams = st.clientStreams
-  sstr : st'.serverStreams = st.serverStreams
-  hist : st'.hist = st.hist
-  seq : st'.seq = st.seq
-  pol : st'.pol = st.pol
-  dis : st'.disableRetry = st.disableRetry
-  maxBuf : st'.maxBuf = st.maxBuf
-  script : st'.script = st.script
-  sentLast : st'.sentLast = st.sentLast
-
-theorem Frame.refl (st : St) : Frame st st := ⟨rfl, rfl, rfl, rfl, rfl, rfl, rfl, rfl, rfl, rfl⟩
-
-theorem Frame.trans {a b c : St} (h1 : Frame a b) (h2 : Frame b c) : Frame a c :=
-  ⟨h2.started.trans h1.started, h2.cstr.trans h1.cstr, h2.sstr.trans h1.sstr, h2.hist.trans h1.hist,
-   h2.seq.trans h1.seq, h2.pol.trans h1.pol, h2.dis.trans h1.dis, h2.maxBuf.trans h1.maxBuf,
-   h2.script.trans h1.script, h2.sentLast.trans h1.sentLast⟩
-
-theorem updCur_frame (st : St) (f : Att → Att) : Frame st (st.updCur f) := by
-  cases h : st.cur with
-  | none => rw [updCur_none st f h]; exact Frame.refl st
-  | some a => rw [updCur_some st f a h]; exact ⟨rfl, rfl, rfl, rfl, rfl, rfl, rfl, rfl, rfl, rfl⟩
-
-theorem write_frame (st : St) (w : Wire) : Frame st (st.write w).1 := by
-  unfold St.write
-  split_ifs
-  · exact Frame.refl st
-  · exact updCur_frame st _
-
-theorem newAttempt_frame (st : St) : Frame st st.newAttempt.1 := ⟨rfl, rfl, rfl, rfl, rfl, rfl, rfl, rfl, rfl, rfl⟩
-
-theorem commit_frame (st : St) : Frame st st.commit := ⟨rfl, rfl, rfl, rfl, rfl, rfl, rfl, rfl, rfl, rfl⟩
-
-theorem buffer_frame (st : St) (sz : Int) (op : ROp) : Frame st (st.buffer sz op) := by
-  simp only [St.buffer]
-  split_ifs <;> exact ⟨rfl, rfl, rfl, rfl, rfl, rfl, rfl, rfl, rfl, rfl⟩
-
-theorem replayAll_frame (st : St) : Frame st st.replayAll.1 := by
-  unfold St.replayAll
-  generalize ([] : List Ev) = evs
-  induction st.replay generalizing st evs with
-  | nil => exact Frame.refl st
-  | cons o r ih =>
-    simp only [List.foldl_cons]
-    cases o with
-    | start => exact (newAttempt_frame st).trans (ih _ _)
-    | msg q z =>
-      simp only
-      split_ifs
-      · exact (write_frame st _).trans (ih _ _)
-      · exact ((write_frame st _).trans (write_frame _ _)).trans (ih _ _)
-    | half => exact (write_frame st _).trans (ih _ _)
-
-theorem applyOp_frame (st : St) (op : COp) : Frame st (st.applyOp op).1 := by
-  cases op with
-  | send size =>
-    simp only [St.applyOp]
-    repeat' split_ifs
-    all_goals first
-      | exact write_frame st _
-      | exact (write_frame st _).trans (write_frame _ _)
-  | half => exact write_frame st _
-  | recv =>
-    have h1 : Frame st { st with atts := react st.atts } := ⟨rfl, rfl, rfl, rfl, rfl, rfl, rfl, rfl, rfl, rfl⟩
-    have h2 := h1.trans (updCur_frame { st with atts := react st.atts } (fun a => { a with respRead := 1 }))
-    have h3 : Frame st { ({ st with atts := react st.atts } : St).updCur (fun a => { a with respRead := 1 }) with recvFirst := true } :=
-      h2.trans ⟨rfl, rfl, rfl, rfl, rfl, rfl, rfl, rfl, rfl, rfl⟩
-    simp only [St.applyOp]
-    repeat' (first | split_ifs | split)
-    all_goals first
-      | exact h1
-      | exact h3
-  | header =>
-    simp only [St.applyOp]
-    repeat' (first | split_ifs | split)
-    all_goals exact ⟨rfl, rfl, rfl, rfl, rfl, rfl, rfl, rfl, rfl, rfl⟩
-
-theorem onSuccess_frame (st : St) (op : COp) : Frame st (st.onSuccess op) := by
-  cases op <;> simp only [St.onSuccess]
-  · exact buffer_frame _ _ _
-  · exact buffer_frame _ _ _
-  · exact commit_frame _
-  · exact commit_frame _
-
-theorem finishAttempt_frame (st : St) (code : Nat) : Frame st (st.finishAttempt code) := updCur_frame st _
-
-theorem decideRetry_frame (st : St) (raw : Raw) : Frame st (st.decideRetry raw).1 := by
-  simp only [St.decideRetry]
-  split
-  · exact finishAttempt_frame _ _
-  · exact (finishAttempt_frame st raw.code).trans ⟨rfl, rfl, rfl, rfl, rfl, rfl, rfl, rfl, rfl, rfl⟩
-
-theorem startRetry_frame (st : St) (d : Decision) : Frame st (st.startRetry d).1 :=
-  Frame.trans (b := { st with cs := afterDecision st.cs d }) ⟨rfl, rfl, rfl, rfl, rfl, rfl, rfl, rfl, rfl, rfl⟩ (replayAll_frame _)
-
-theorem withRetry_frame (fuel : Nat) (st : St) (op : COp) : Frame st (St.withRetry fuel st op).1 := by
-  induction fuel generalizing st with
-  | zero =>
-    rw [withRetry_unfold]
-    split_ifs
-    · exact applyOp_frame st op
-    · split
-      · exact applyOp_frame st op
-      · exact (applyOp_frame st op).trans (onSuccess_frame _ _)
-      · split
-        · exact ((applyOp_frame st op).trans (decideRetry_frame _ _)).trans (commit_frame _)
-        · exact ((applyOp_frame st op).trans (decideRetry_frame _ _)).trans (commit_frame _)
-        · exact (applyOp_frame st op).trans (decideRetry_frame _ _)
-  | succ n ih =>
-    rw [withRetry_unfold]
-    split_ifs
-    · exact applyOp_frame st op
-    · split
-      · exact applyOp_frame st op
-      · exact (applyOp_frame st op).trans (onSuccess_frame _ _)
-      · split
-        · exact ((applyOp_frame st op).trans (decideRetry_frame _ _)).trans (commit_frame _)
-        · exact ((applyOp_frame st op).trans (decideRetry_frame _ _)).trans (commit_frame _)
-        · exact (((applyOp_frame st op).trans (decideRetry_frame _ _)).trans (startRetry_frame _ _)).trans (ih _)
-
-theorem extend_hist_rinv (st : St) (item : List Wire) (h : RInv st [] []) :
-    RInv { st with hist := st.hist ++ item } item item := by
-  refine ⟨?_, ?_, ?_, h.once⟩
-  · intro hc; have := h.buf hc; simp only [List.append_nil] at this; simp [this]
-  · intro a ha
-    obtain ⟨t, ht⟩ := h.pre a ha
-    exact ⟨t ++ item, by simp [← ht, List.append_assoc]⟩
-  · intro a hc hd
-    have := h.cur a hc hd
-    simp only [List.append_nil] at this
-    simp [this]
-
-/-- the replay invariant at operation boundaries -/
-def Good (st : St) : Prop := RInv st [] [] ∧ st.started = true
-
-theorem settle_frame (st : St) : Frame st st.settle := ⟨rfl, rfl, rfl, rfl, rfl, rfl, rfl, rfl, rfl, rfl⟩
-
-theorem finish_frame (st : St) (code : Nat) : Frame st (st.finish code) := by
-  have h1 : Frame st ({ st with cs := { st.cs with finished := true } } : St).commit :=
-    ⟨rfl, rfl, rfl, rfl, rfl, rfl, rfl, rfl, rfl, rfl⟩
-  have h2 := h1.trans (finishAttempt_frame _ code)
-  simp only [St.finish]
-  split_ifs
-  · exact Frame.refl st
-  · exact h2.trans ⟨rfl, rfl, rfl, rfl, rfl, rfl, rfl, rfl, rfl, rfl⟩
-  · exact h2
-
-theorem good_finish (st : St) (code : Nat) (h : Good st) : Good (st.finish code) :=
-  ⟨finish_rinv st code [] [] h.1, (finish_frame st code).started.trans h.2⟩
-
-theorem good_settle (st : St) (h : Good st) : Good st.settle := ⟨settle_rinv st [] [] h.1, h.2⟩
-
-theorem withRetry_good (fuel : Nat) (st : St) (op : COp) (hst : st.started = true)
-    (h : RInv st (st.pendOf op) (st.pendOf op)) :
-    (St.withRetry fuel st op).2.1 = .outOfFuel ∨ Good (St.withRetry fuel st op).1 := by
-  rcases withRetry_rinv fuel st op hst h with h1 | h1
-  · exact Or.inl h1
-  · exact Or.inr ⟨h1, (withRetry_frame fuel st op).started.trans hst⟩
-
-
-theorem beginSend_rinv (st : St) (size : Nat) (h : Good st) :
-    RInv (st.beginSend size) ((st.beginSend size).pendOf (.send size)) ((st.beginSend size).pendOf (.send size)) ∧
-    (st.beginSend size).started = true := by
-  have hA := extend_hist_rinv { st with seq := st.seq + 1 } (({ st with seq := st.seq + 1 } : St).pendOf (.send size))
-    ⟨h.1.buf, h.1.pre, h.1.cur, h.1.once⟩
-  exact ⟨⟨hA.buf, hA.pre, hA.cur, hA.once⟩, h.2⟩
-
-theorem beginClose_rinv (st : St) (h : Good st) :
-    RInv st.beginClose (st.beginClose.pendOf .half) (st.beginClose.pendOf .half) ∧ st.beginClose.started = true := by
-  have hA := extend_hist_rinv st [Wire.half] h.1
-  exact ⟨⟨hA.buf, hA.pre, hA.cur, hA.once⟩, h.2⟩
-
-theorem endSend_good (st : St) (res : Res) (h : Good st) : Good (st.endSend res) := by
-  unfold St.endSend
-  split <;> first
-    | exact good_settle _ (good_finish _ _ h)
-    | exact good_settle _ h
-
-theorem endRecv_good (st : St) (res : Res) (h : Good st) : Good (st.endRecv res) := by
-  unfold St.endRecv
-  split <;> first
-    | exact good_settle _ (good_finish _ _ h)
-    | exact good_settle _ h
-
-theorem endHeader_good (st : St) (res : Res) (h : Good st) : Good (st.endHeader res) := by
-  unfold St.endHeader
-  split <;> first
-    | exact good_settle _ (good_finish _ _ h)
-    | exact good_settle _ h
-
-theorem opSend_good (fuel : Nat) (st : St) (size : Nat) (h : Good st) :
-    (st.opSend fuel size).2.1 = .outOfFuel ∨ Good (st.opSend fuel size).1 := by
-  unfold St.opSend
-  split_ifs
-  · right
-    exact good_settle _ (good_finish _ _ ⟨⟨h.1.buf, h.1.pre, h.1.cur, h.1.once⟩, h.2⟩)
-  · obtain ⟨hi, hs⟩ := beginSend_rinv st size h
-    rcases withRetry_good fuel _ (.send size) hs hi with hw | hw
-    · exact Or.inl hw
-    · exact Or.inr (endSend_good _ _ hw)
-
-theorem opClose_good (fuel : Nat) (st : St) (h : Good st) :
-    (St.withRetry fuel st.beginClose .half).2.1 = .outOfFuel ∨ Good (st.opClose fuel).1 := by
-  unfold St.opClose
-  split_ifs
-  · exact Or.inr (good_settle _ h)
-  · obtain ⟨hi, hs⟩ := beginClose_rinv st h
-    rcases withRetry_good fuel _ .half hs hi with hw | hw
-    · exact Or.inl hw
-    · exact Or.inr (good_settle _ hw)
-
-theorem opRecv_good (fuel : Nat) (st : St) (h : Good st) :
-    (st.opRecv fuel).2.1 = .outOfFuel ∨ Good (st.opRecv fuel).1 := by
-  unfold St.opRecv
-  rcases withRetry_good fuel st .recv h.2 ⟨h.1.buf, h.1.pre, h.1.cur, h.1.once⟩ with hw | hw
-  · exact Or.inl hw
-  · exact Or.inr (endRecv_good _ _ hw)
-
-theorem opHeader_good (fuel : Nat) (st : St) (h : Good st) :
-    (St.withRetry fuel st .header).2.1 = .outOfFuel ∨ Good (st.opHeader fuel).1 := by
-  unfold St.opHeader
-  rcases withRetry_good fuel st .header h.2 ⟨h.1.buf, h.1.pre, h.1.cur, h.1.once⟩ with hw | hw
-  · exact Or.inl hw
-  · exact Or.inr (endHeader_good _ _ hw)
-
-/-! ### fuel -/
-
-theorem write_cs (st : St) (w : Wire) : (st.write w).1.cs = st.cs := by
-  unfold St.write
-  split_ifs
-  · rfl
-  · exact (updCur_same st _).cs
-
-theorem replayAll_cs (st : St) : st.replayAll.1.cs = st.cs := by
-  unfold St.replayAll
-  generalize ([] : List Ev) = evs
-  induction st.replay generalizing st evs with
-  | nil => rfl
-  | cons o r ih =>
-    simp only [List.foldl_cons]
-    cases o with
-    | start => exact (ih _ _).trans rfl
-    | msg q z =>
-      simp only
-      split_ifs
-      · exact (ih _ _).trans (write_cs st _)
-      · exact (ih _ _).trans ((write_cs _ _).trans (write_cs st _))
-    | half => exact (ih _ _).trans (write_cs st _)
-
-theorem startRetry_cs (st : St) (d : Decision) : (st.startRetry d).1.cs = afterDecision st.cs d := by
-  unfold St.startRetry; exact replayAll_cs _
-
-theorem applyOp_cs (st : St) (op : COp) : (st.applyOp op).1.cs = st.cs := by
-  cases op with
-  | send size =>
-    simp only [St.applyOp]
-    repeat' split_ifs
-    all_goals first
-      | exact write_cs st _
-      | exact (write_cs _ _).trans (write_cs st _)
-  | half => exact write_cs st _
-  | recv =>
-    have h2 := (updCur_same ({ st with atts := react st.atts } : St) (fun a => { a with respRead := 1 })).cs
-    simp only [St.applyOp]
-    repeat' (first | split_ifs | split)
-    all_goals first
-      | rfl
-      | exact h2
-  | header =>
-    simp only [St.applyOp]
-    repeat' (first | split_ifs | split)
-    all_goals rfl
-
-/-- the decision step in terms of `shouldRetry` on the unchanged bookkeeping -/
-theorem decideRetry_spec (st : St) (raw : Raw) :
-    ((st.decideRetry raw).2 = .noRetry ∧ (st.decideRetry raw).1.cs = st.cs) ∨
-    ∃ a, (st.decideRetry raw).2 = (shouldRetry st.disableRetry st.pol st.cs (attemptView a) 0).2 ∧
-         (st.decideRetry raw).1.cs = (shouldRetry st.disableRetry st.pol st.cs (attemptView a) 0).1 ∧
-         (attemptView a).hasStream = true := by
-  have hs := finishAttempt_same st raw.code
-  simp only [St.decideRetry]
-  split
-  · exact Or.inl ⟨rfl, hs.cs⟩
-  next a _ =>
-    right
-    refine ⟨a, ?_, ?_, rfl⟩
-    · simp only; rw [hs.dis, hs.pol, hs.cs]
-    · simp only; rw [hs.dis, hs.pol, hs.cs]
-
-theorem retryBudget_congr (st st' : St) (h1 : st'.cs = st.cs) (h2 : st'.pol = st.pol) : st'.retryBudget = st.retryBudget := by
-  simp [St.retryBudget, h1, h2]
-
-/-- a positive decision consumes budget -/
-theorem budget_decreases (dis : Bool) (pol : Option Policy) (cs : CS) (a : Attempt) (ha : a.hasStream = true)
-    (d : Decision) (hd : (shouldRetry dis pol cs a 0).2 = d) (hpos : d ≠ .noRetry ∧ d ≠ .exhausted) :
-    budget (afterDecision (shouldRetry dis pol cs a 0).1 d) pol + 1 ≤ budget cs pol := by
-  unfold budget
-  generalize hcs' : afterDecision (shouldRetry dis pol cs a 0).1 d = cs'
-  have hf := sr_other_fields dis pol cs a 0
-  cases d with
-  | noRetry => exact absurd rfl hpos.1
-  | exhausted => exact absurd rfl hpos.2
-  | transparent =>
-    obtain ⟨_, _, _, hc⟩ := sr_transparent_conditions dis pol cs a 0 hd
-    rcases hc with ⟨hns, _⟩ | ⟨hfa, _, _⟩
-    · rw [ha] at hns; cases hns
-    · have h1 : cs'.firstAttempt = false := by rw [← hcs']; rfl
-      have h2 : cs'.numRetries = cs.numRetries := by rw [← hcs']; exact hf.1
-      simp only [h1, h2, hfa, Bool.false_eq_true, if_false, if_true]
-      omega
-  | backoff dur fp =>
-    obtain ⟨pb, rp, _, hp, _, hlt⟩ := sr_backoff_conditions dis pol cs a 0 dur fp hd
-    have h1 : cs'.firstAttempt = false := by rw [← hcs']; rfl
-    have h2 : cs'.numRetries = cs.numRetries + 1 := by
-      rw [← hcs']
-      show (shouldRetry dis pol cs a 0).1.numRetries + 1 = _
-      rw [hf.1]
-    subst hp
-    simp only [h1, h2, Bool.false_eq_true, if_false]
-    split_ifs <;> omega
-
-theorem rawToRes_ne_outOfFuel (raw : Raw) : rawToRes raw ≠ .outOfFuel := by cases raw <;> simp [rawToRes]
-
-theorem withRetry_fuel (fuel : Nat) (st : St) (op : COp) (hf : st.retryBudget ≤ fuel) :
-    (St.withRetry fuel st op).2.1 ≠ .outOfFuel := by
-  induction fuel generalizing st with
-  | zero =>
-    rw [withRetry_unfold]
-    split_ifs
-    · exact rawToRes_ne_outOfFuel _
-    · split
-      · simp
-      · exact rawToRes_ne_outOfFuel _
-      · split
-        · exact rawToRes_ne_outOfFuel _
-        · split <;> simp
-        next d hn he =>
-          exfalso
-          have hcs := applyOp_cs st op
-          have hpol := (applyOp_frame st op).pol
-          have hdis := (applyOp_frame st op).dis
-          rcases decideRetry_spec (st.applyOp op).1 (st.applyOp op).2.1 with ⟨h1, _⟩ | ⟨a, h1, h2, ha⟩
-          · exact (hn h1).elim
-          · have := budget_decreases (st.applyOp op).1.disableRetry (st.applyOp op).1.pol (st.applyOp op).1.cs (attemptView a) ha
-              _ h1.symm ⟨fun h => hn h, fun h => he h⟩
-            simp only [hcs, hpol] at this
-            simp only [St.retryBudget] at hf
-            omega
-  | succ n ih =>
-    rw [withRetry_unfold]
-    split_ifs
-    · exact rawToRes_ne_outOfFuel _
-    · split
-      · simp
-      · exact rawToRes_ne_outOfFuel _
-      · split
-        · exact rawToRes_ne_outOfFuel _
-        · split <;> simp
-        next d hn he =>
-          simp only [contK]
-          apply ih
-          have hcs := applyOp_cs st op
-          have hpol := (applyOp_frame st op).pol
-          rcases decideRetry_spec (st.applyOp op).1 (st.applyOp op).2.1 with ⟨h1, _⟩ | ⟨a, h1, h2, ha⟩
-          · exact (hn h1).elim
-          · have hb := budget_decreases (st.applyOp op).1.disableRetry (st.applyOp op).1.pol (st.applyOp op).1.cs (attemptView a) ha
-              _ h1.symm ⟨fun h => hn h, fun h => he h⟩
-            have e1 : ∀ D, (((st.applyOp op).1.decideRetry (st.applyOp op).2.1).1.startRetry D).1.retryBudget =
-                budget (afterDecision ((st.applyOp op).1.decideRetry (st.applyOp op).2.1).1.cs D) st.pol := by
-              intro D
-              unfold St.retryBudget
-              rw [startRetry_cs, (startRetry_frame _ _).pol, (decideRetry_frame _ _).pol, hpol]
-            rw [e1, h2, hcs, hpol]
-            rw [hcs, hpol] at hb
-            simp only [St.retryBudget] at hf
-            omega
-
-/-! ### more invariants of withRetry -/
-
-/-- induction principle: a state predicate kept by the pieces of `withRetry` is kept by `withRetry`. -/
-theorem withRetry_preserves (P : St → Prop)
-    (hApply : ∀ st op, P st → P (st.applyOp op).1)
-    (hSucc : ∀ st op, P st → P (st.onSuccess op))
-    (hDec : ∀ st raw, P st → P (st.decideRetry raw).1)
-    (hCommit : ∀ st, P st → P st.commit)
-    (hRetry : ∀ st raw, P st → (st.decideRetry raw).2 ≠ .noRetry → (st.decideRetry raw).2 ≠ .exhausted →
-        P ((st.decideRetry raw).1.startRetry (st.decideRetry raw).2).1)
-    (fuel : Nat) (st : St) (op : COp) (h : P st) : P (St.withRetry fuel st op).1 := by
-  induction fuel generalizing st with
-  | zero =>
-    rw [withRetry_unfold]
-    split_ifs
-    · exact hApply st op h
-    · split
-      · exact hApply st op h
-      · exact hSucc _ op (hApply st op h)
-      · split
-        · exact hCommit _ (hDec _ _ (hApply st op h))
-        · exact hCommit _ (hDec _ _ (hApply st op h))
-        · exact hDec _ _ (hApply st op h)
-  | succ n ih =>
-    rw [withRetry_unfold]
-    split_ifs
-    · exact hApply st op h
-    · split
-      · exact hApply st op h
-      · exact hSucc _ op (hApply st op h)
-      · split
-        · exact hCommit _ (hDec _ _ (hApply st op h))
-        · exact hCommit _ (hDec _ _ (hApply st op h))
-        next d hn he =>
-          simp only [contK]
-          exact ih _ (hRetry _ _ (hApply st op h) (fun hh => hn hh) (fun hh => he hh))
-
-/-! #### small frame facts -/
-
-theorem write_rsize (st : St) (w : Wire) : (st.write w).1.replaySize = st.replaySize ∧ (st.write w).1.atts.length = st.atts.length := by
-  unfold St.write
-  split_ifs
-  · exact ⟨rfl, rfl⟩
-  · exact ⟨(updCur_same st _).rsize, (updCur_same st _).len⟩
-
-theorem applyOp_rsize (st : St) (op : COp) :
-    (st.applyOp op).1.replaySize = st.replaySize ∧ (st.applyOp op).1.atts.length = st.atts.length := by
-  cases op with
-  | send size =>
-    simp only [St.applyOp]
-    repeat' split_ifs
-    all_goals first
-      | exact write_rsize st _
-      | exact ⟨(write_rsize _ _).1.trans (write_rsize st _).1, (write_rsize _ _).2.trans (write_rsize st _).2⟩
-  | half => exact write_rsize st _
-  | recv =>
-    have h2 := updCur_same ({ st with atts := react st.atts } : St) (fun a => { a with respRead := 1 })
-    have hl : (react st.atts).length = st.atts.length := by simp [react]
-    simp only [St.applyOp]
-    repeat' (first | split_ifs | split)
-    all_goals first
-      | exact ⟨rfl, hl⟩
-      | exact ⟨h2.rsize, h2.len.trans hl⟩
-  | header =>
-    have hl : (react st.atts).length = st.atts.length := by simp [react]
-    simp only [St.applyOp]
-    repeat' (first | split_ifs | split)
-    all_goals exact ⟨rfl, hl⟩
-
-theorem replayAll_rsize (st : St) : st.replayAll.1.replaySize = st.replaySize := by
-  unfold St.replayAll
-  generalize ([] : List Ev) = evs
-  induction st.replay generalizing st evs with
-  | nil => rfl
-  | cons o r ih =>
-    simp only [List.foldl_cons]
-    cases o with
-    | start => exact (ih _ _).trans rfl
-    | msg q z =>
-      simp only
-      split_ifs
-      · exact (ih _ _).trans (write_rsize st _).1
-      · exact (ih _ _).trans ((write_rsize _ _).1.trans (write_rsize st _).1)
-    | half => exact (ih _ _).trans (write_rsize st _).1
-
-theorem decideRetry_keep (st : St) (raw : Raw) :
-    (st.decideRetry raw).1.cs.committed = st.cs.committed ∧ (st.decideRetry raw).1.replaySize = st.replaySize ∧
-    (st.decideRetry raw).1.atts.length = st.atts.length := by
-  have hs := finishAttempt_same st raw.code
-  simp only [St.decideRetry]
-  split
-  · exact ⟨by rw [hs.cs], hs.rsize, hs.len⟩
-  next a _ =>
-    have hf := sr_other_fields (st.finishAttempt raw.code).disableRetry (st.finishAttempt raw.code).pol
-      (st.finishAttempt raw.code).cs (attemptView a) 0
-    exact ⟨by simp only; rw [hf.2.2.1, hs.cs], hs.rsize, hs.len⟩
-
-/-! #### the buffer never exceeds the limit while uncommitted -/
-
-def SizeInv (st : St) : Prop := st.cs.committed = false → st.replaySize ≤ st.maxBuf
-
-theorem buffer_size (st : St) (sz : Int) (op : ROp) (h : SizeInv st) : SizeInv (st.buffer sz op) := by
-  simp only [St.buffer, SizeInv]
-  split_ifs with hc hs
-  · exact h
-  · intro hf; simp [St.commit] at hf
-  · intro _; simpa using hs
-
-theorem withRetry_size (fuel : Nat) (st : St) (op : COp) (h : SizeInv st) : SizeInv (St.withRetry fuel st op).1 := by
-  apply withRetry_preserves SizeInv _ _ _ _ _ fuel st op h
-  · intro st op h hc
-    rw [applyOp_cs] at hc
-    rw [(applyOp_rsize st op).1, (applyOp_frame st op).maxBuf]; exact h hc
-  · intro st op h
-    cases op <;> simp only [St.onSuccess]
-    · exact buffer_size _ _ _ h
-    · exact buffer_size _ _ _ h
-    · intro hc; simp [St.commit] at hc
-    · intro hc; simp [St.commit] at hc
-  · intro st raw h hc
-    rw [(decideRetry_keep st raw).1] at hc
-    rw [(decideRetry_keep st raw).2.1, (decideRetry_frame st raw).maxBuf]; exact h hc
-  · intro st _ hc; simp [St.commit] at hc
-  · intro st raw h _ _ hc
-    rw [startRetry_cs, afterDecision_committed, (decideRetry_keep st raw).1] at hc
-    unfold St.startRetry
-    rw [replayAll_rsize, (replayAll_frame _).maxBuf]
-    simp only
-    rw [(decideRetry_keep st raw).2.1, (decideRetry_frame st raw).maxBuf]; exact h hc
-
-/-! #### once committed, no attempt is ever created again -/
-
-theorem withRetry_committed_atts (fuel : Nat) (st : St) (op : COp) (hc : st.cs.committed = true) :
-    (St.withRetry fuel st op).1.atts.length = st.atts.length ∧ (St.withRetry fuel st op).1.cs.committed = true := by
-  rw [withRetry_unfold]
-  simp only [hc, if_true]
-  exact ⟨(applyOp_rsize st op).2, by rw [applyOp_cs]; exact hc⟩
-
-/-- `committed` is never reset -/
-theorem withRetry_committed_mono (fuel : Nat) (st : St) (op : COp) (hc : st.cs.committed = true) :
-    (St.withRetry fuel st op).1.cs.committed = true := (withRetry_committed_atts fuel st op hc).2
-
-/-! #### delivery commits -/
-
-theorem applyOp_delivers_op (st : St) (op : COp) (h : (rawToRes (st.applyOp op).2.1).delivers = true) :
-    op = .recv ∨ op = .header := by
-  cases op with
-  | send size =>
-    simp only [St.applyOp] at h
-    repeat' split_ifs at h
-    all_goals simp [rawToRes, Res.delivers] at h
-  | half => simp [St.applyOp, rawToRes, Res.delivers] at h
-  | recv => exact Or.inl rfl
-  | header => exact Or.inr rfl
-
-theorem rawToRes_fail (raw : Raw) (h : raw.isFail = true) : (rawToRes raw).delivers = false := by
-  cases raw <;> simp [Raw.isFail, rawToRes, Res.delivers] at h ⊢
-
-theorem withRetry_delivery_commits (fuel : Nat) (st : St) (op : COp)
-    (h : (St.withRetry fuel st op).2.1.delivers = true) : (St.withRetry fuel st op).1.cs.committed = true := by
-  induction fuel generalizing st with
-  | zero =>
-    rw [withRetry_unfold] at h ⊢
-    by_cases hc : st.cs.committed = true
-    · simp only [hc, if_true]; rw [applyOp_cs]; exact hc
-    · have hc' : st.cs.committed = false := by simpa using hc
-      simp only [hc', Bool.false_eq_true, if_false] at h ⊢
-      cases hcl : (st.applyOp op).1.classify (st.applyOp op).2.1 with
-      | blocked => simp [hcl, Res.delivers] at h
-      | success =>
-        simp only [hcl] at h ⊢
-        rcases applyOp_delivers_op st op h with ho | ho <;> subst ho <;> rfl
-      | failure =>
-        have hf := rawToRes_fail _ (classify_failure _ _ hcl)
-        simp only [hcl] at h ⊢
-        cases hd : ((st.applyOp op).1.decideRetry (st.applyOp op).2.1).2 with
-        | noRetry => simp only [hd] at h; rw [hf] at h; cases h
-        | exhausted => simp only [hd] at h; split at h <;> simp [Res.delivers] at h
-        | transparent => simp [hd, contK, Res.delivers] at h
-        | backoff dur fp => simp [hd, contK, Res.delivers] at h
-  | succ n ih =>
-    rw [withRetry_unfold] at h ⊢
-    by_cases hc : st.cs.committed = true
-    · simp only [hc, if_true]; rw [applyOp_cs]; exact hc
-    · have hc' : st.cs.committed = false := by simpa using hc
-      simp only [hc', Bool.false_eq_true, if_false] at h ⊢
-      cases hcl : (st.applyOp op).1.classify (st.applyOp op).2.1 with
-      | blocked => simp [hcl, Res.delivers] at h
-      | success =>
-        simp only [hcl] at h ⊢
-        rcases applyOp_delivers_op st op h with ho | ho <;> subst ho <;> rfl
-      | failure =>
-        have hf := rawToRes_fail _ (classify_failure _ _ hcl)
-        simp only [hcl] at h ⊢
-        cases hd : ((st.applyOp op).1.decideRetry (st.applyOp op).2.1).2 with
-        | noRetry => simp only [hd] at h; rw [hf] at h; cases h
-        | exhausted => simp only [hd] at h; split at h <;> simp [Res.delivers] at h
-        | transparent => simp only [hd, contK] at h ⊢; exact ih _ h
-        | backoff dur fp => simp only [hd, contK] at h ⊢; exact ih _ h
-
-/-! #### the number of non-transparent attempts is bounded by the policy -/
-
-def PrevsLe (st : St) : Prop := ∀ a ∈ st.atts, a.prev ≤ st.cs.numRetries
-
-def NrBound (st : St) : Prop :=
-  0 ≤ st.cs.numRetries ∧ (st.cs.numRetries = 0 ∨ ∃ rp, st.pol = some rp ∧ st.cs.numRetries + 1 ≤ rp.maxAttempts)
-
-def BInv (st : St) : Prop := PrevsLe st ∧ NrBound st
-
-theorem updCur_prevsLe (st : St) (f : Att → Att) (hf : ∀ a, (f a).prev = a.prev) (h : PrevsLe st) : PrevsLe (st.updCur f) := by
-  intro x hx
-  rw [(updCur_same st f).cs]
-  rcases mem_updCur st f x hx with hx | ⟨a, hc, rfl⟩
-  · exact h x hx
-  · rw [hf]; exact h a (cur_mem st a hc)
-
-theorem write_prevsLe (st : St) (w : Wire) (h : PrevsLe st) : PrevsLe (st.write w).1 := by
-  unfold St.write
-  split_ifs
-  · exact h
-  · exact updCur_prevsLe st _ (fun _ => rfl) h
-
-theorem react_prevsLe (st : St) (h : PrevsLe st) : PrevsLe { st with atts := react st.atts } := by
-  intro x hx
-  simp only [react, List.mem_map] at hx
-  obtain ⟨a, ha, rfl⟩ := hx
-  have := h a ha
-  split_ifs <;> exact this
-
-theorem applyOp_binv (st : St) (op : COp) (h : BInv st) : BInv (st.applyOp op).1 := by
-  refine ⟨?_, ?_⟩
-  · cases op with
-    | send size =>
-      simp only [St.applyOp]
-      repeat' split_ifs
-      all_goals first
-        | exact write_prevsLe st _ h.1
-        | exact write_prevsLe _ _ (write_prevsLe st _ h.1)
-    | half => exact write_prevsLe st _ h.1
-    | recv =>
-      have h1 := react_prevsLe st h.1
-      have h2 := updCur_prevsLe _ (fun a => { a with respRead := 1 }) (fun _ => rfl) h1
-      simp only [St.applyOp]
-      repeat' (first | split_ifs | split)
-      all_goals first
-        | exact h1
-        | exact h2
-    | header =>
-      have h1 := react_prevsLe st h.1
-      simp only [St.applyOp]
-      repeat' (first | split_ifs | split)
-      all_goals exact h1
-  · unfold NrBound; rw [applyOp_cs, (applyOp_frame st op).pol]; exact h.2
-
-theorem buffer_binv (st : St) (sz : Int) (op : ROp) (h : BInv st) : BInv (st.buffer sz op) := by
-  simp only [St.buffer]
-  split_ifs <;> exact h
-
-theorem finishAttempt_binv (st : St) (code : Nat) (h : BInv st) : BInv (st.finishAttempt code) := by
-  refine ⟨?_, ?_⟩
-  · unfold St.finishAttempt
-    apply updCur_prevsLe st _ _ h.1
-    intro a; split_ifs <;> rfl
-  · unfold NrBound; rw [(finishAttempt_same st code).cs, (finishAttempt_same st code).pol]; exact h.2
-
-theorem decideRetry_binv (st : St) (raw : Raw) (h : BInv st) : BInv (st.decideRetry raw).1 := by
-  have h2 := finishAttempt_binv st raw.code h
-  simp only [St.decideRetry]
-  split
-  · exact h2
-  next a _ =>
-    have hf := sr_other_fields (st.finishAttempt raw.code).disableRetry (st.finishAttempt raw.code).pol
-      (st.finishAttempt raw.code).cs (attemptView a) 0
-    refine ⟨?_, ?_⟩
-    · intro x hx; simp only at hx ⊢; rw [hf.1]; exact h2.1 x hx
-    · unfold NrBound; simp only; rw [hf.1]; exact h2.2
-
-theorem replayAll_prevsLe (st : St) (h : PrevsLe st) : PrevsLe st.replayAll.1 := by
-  unfold St.replayAll
-  generalize ([] : List Ev) = evs
-  induction st.replay generalizing st evs with
-  | nil => exact h
-  | cons o r ih =>
-    simp only [List.foldl_cons]
-    cases o with
-    | start =>
-      apply ih
-      intro x hx
-      simp only [St.newAttempt, List.mem_append, List.mem_singleton] at hx ⊢
-      rcases hx with hx | hx
-      · exact h x hx
-      · subst hx; exact le_refl _
-    | msg q z =>
-      simp only
-      split_ifs
-      · apply ih; exact write_prevsLe st _ h
-      · apply ih; exact write_prevsLe _ _ (write_prevsLe st _ h)
-    | half => apply ih; exact write_prevsLe st _ h
-
-theorem retry_binv (st : St) (raw : Raw) (h : BInv st)
-    (hn : (st.decideRetry raw).2 ≠ .noRetry) (he : (st.decideRetry raw).2 ≠ .exhausted) :
-    BInv ((st.decideRetry raw).1.startRetry (st.decideRetry raw).2).1 := by
-  have h3 := decideRetry_binv st raw h
-  have hpol : ((st.decideRetry raw).1.startRetry (st.decideRetry raw).2).1.pol = st.pol :=
-    ((startRetry_frame _ _).pol).trans (decideRetry_frame st raw).pol
-  have hcs := startRetry_cs (st.decideRetry raw).1 (st.decideRetry raw).2
-  rcases decideRetry_spec st raw with ⟨h1, _⟩ | ⟨a, h1, h2, ha⟩
-  · exact absurd h1 hn
-  · have hf := sr_other_fields st.disableRetry st.pol st.cs (attemptView a) 0
-    cases hd : (st.decideRetry raw).2 with
-    | noRetry => exact absurd hd hn
-    | exhausted => exact absurd hd he
-    | transparent =>
-      rw [hd] at hcs hpol
-      refine ⟨?_, ?_⟩
-      · unfold St.startRetry
-        apply replayAll_prevsLe
-        intro x hx
-        simp only at hx ⊢
-        exact h3.1 x hx
-      · unfold NrBound; rw [hcs, hpol]
-        have e : (afterDecision (st.decideRetry raw).1.cs Decision.transparent).numRetries = st.cs.numRetries := by
-          show (st.decideRetry raw).1.cs.numRetries = _
-          rw [h2, hf.1]
-        rw [e]; exact h.2
-    | backoff dur fp =>
-      rw [hd] at hcs hpol
-      obtain ⟨pb, rp, _, hp, _, hlt⟩ := sr_backoff_conditions st.disableRetry st.pol st.cs (attemptView a) 0 dur fp (by rw [← h1, hd])
-      refine ⟨?_, ?_⟩
-      · unfold St.startRetry
-        apply replayAll_prevsLe
-        intro x hx
-        simp only at hx ⊢
-        have := h3.1 x hx
-        show x.prev ≤ (st.decideRetry raw).1.cs.numRetries + 1
-        omega
-      · unfold NrBound; rw [hcs, hpol]
-        have e : (afterDecision (st.decideRetry raw).1.cs (Decision.backoff dur fp)).numRetries = st.cs.numRetries + 1 := by
-          show (st.decideRetry raw).1.cs.numRetries + 1 = _
-          rw [h2, hf.1]
-        rw [e]
-        have := h.2.1
-        exact ⟨by omega, Or.inr ⟨rp, hp, by omega⟩⟩
-
-theorem withRetry_binv (fuel : Nat) (st : St) (op : COp) (h : BInv st) : BInv (St.withRetry fuel st op).1 := by
-  apply withRetry_preserves BInv _ _ _ _ _ fuel st op h
-  · exact applyOp_binv
-  · intro st op h
-    cases op <;> simp only [St.onSuccess]
-    · exact buffer_binv _ _ _ h
-    · exact buffer_binv _ _ _ h
-    · exact h
-    · exact h
-  · exact decideRetry_binv
-  · intro st h; exact h
-  · exact retry_binv
-
-/-! ### operation level -/
-
-/-- everything that holds between two application operations -/
-structure OpInv (st : St) : Prop where
-  good : Good st
-  size : SizeInv st
-  bound : BInv st
-
-/-- fuel that is enough for any operation of this RPC -/
-def fuelFor (st : St) : Nat := 1 + (match st.pol with | some rp => rp.maxAttempts.toNat | none => 0)
-
-theorem budget_le_fuelFor (st : St) (h : BInv st) : st.retryBudget ≤ fuelFor st := by
-  unfold St.retryBudget budget fuelFor
-  have := h.2.1
-  cases st.pol with
-  | none => split_ifs <;> simp
-  | some rp => simp only; split_ifs <;> omega
-
-theorem finish_binv (st : St) (code : Nat) (h : BInv st) : BInv (st.finish code) := by
-  have h1 : BInv ({ st with cs := { st.cs with finished := true } } : St).commit := h
-  have h2 := finishAttempt_binv _ code h1
-  simp only [St.finish]
-  split_ifs
-  · exact h
-  · exact h2
-  · exact h2
-
-theorem finish_size (st : St) (code : Nat) : SizeInv (st.finish code) ∨ (st.cs.finished = true ∧ st.finish code = st) := by
-  simp only [St.finish]
-  split_ifs with hf
-  · exact Or.inr ⟨hf, rfl⟩
-  · left; intro hc
-    have := (finishAttempt_same (({ st with cs := { st.cs with finished := true } } : St).commit) code).cs
-    simp only at hc
-    rw [this] at hc; simp [St.commit] at hc
-  · left; intro hc
-    have := (finishAttempt_same (({ st with cs := { st.cs with finished := true } } : St).commit) code).cs
-    rw [this] at hc; simp [St.commit] at hc
-
-theorem finish_size' (st : St) (code : Nat) (h : SizeInv st) : SizeInv (st.finish code) := by
-  rcases finish_size st code with h1 | ⟨_, h1⟩
-  · exact h1
-  · rw [h1]; exact h
-
-theorem settle_inv (st : St) (h : OpInv st) : OpInv st.settle :=
-  ⟨good_settle st h.good, h.size, ⟨react_prevsLe st h.bound.1, h.bound.2⟩⟩
-
-theorem finish_inv (st : St) (code : Nat) (h : OpInv st) : OpInv (st.finish code) :=
-  ⟨good_finish st code h.good, finish_size' st code h.size, finish_binv st code h.bound⟩
-
-theorem endSend_inv (st : St) (res : Res) (h : OpInv st) : OpInv (st.endSend res) := by
-  unfold St.endSend
-  split <;> first
-    | exact settle_inv _ (finish_inv _ _ h)
-    | exact settle_inv _ h
-
-theorem endRecv_inv (st : St) (res : Res) (h : OpInv st) : OpInv (st.endRecv res) := by
-  unfold St.endRecv
-  split <;> first
-    | exact settle_inv _ (finish_inv _ _ h)
-    | exact settle_inv _ h
-
-theorem endHeader_inv (st : St) (res : Res) (h : OpInv st) : OpInv (st.endHeader res) := by
-  unfold St.endHeader
-  split <;> first
-    | exact settle_inv _ (finish_inv _ _ h)
-    | exact settle_inv _ h
-
-/-- `withRetry` from a state prepared by an operation, with enough fuel -/
-theorem withRetry_inv (fuel : Nat) (st : St) (op : COp) (hst : st.started = true)
-    (hr : RInv st (st.pendOf op) (st.pendOf op)) (hs : SizeInv st) (hb : BInv st) (hf : fuelFor st ≤ fuel) :
-    OpInv (St.withRetry fuel st op).1 ∧ (St.withRetry fuel st op).2.1 ≠ .outOfFuel := by
-  have hne := withRetry_fuel fuel st op (le_trans (budget_le_fuelFor st hb) hf)
-  rcases withRetry_good fuel st op hst hr with h | h
-  · exact absurd h hne
-  · exact ⟨⟨h, withRetry_size fuel st op hs, withRetry_binv fuel st op hb⟩, hne⟩
-
-theorem fuelFor_pol (st st' : St) (h : st'.pol = st.pol) : fuelFor st' = fuelFor st := by
-  unfold fuelFor; rw [h]
-
-theorem endSend_pol (st : St) (res : Res) : (st.endSend res).pol = st.pol := by
-  unfold St.endSend
-  split <;> first
-    | exact ((finish_frame _ _).trans (settle_frame _)).pol
-    | exact (settle_frame _).pol
-
-theorem endRecv_pol (st : St) (res : Res) : (st.endRecv res).pol = st.pol := by
-  unfold St.endRecv
-  split <;> first
-    | exact ((finish_frame _ _).trans (settle_frame _)).pol
-    | exact (settle_frame _).pol
-
-theorem endHeader_pol (st : St) (res : Res) : (st.endHeader res).pol = st.pol := by
-  unfold St.endHeader
-  split <;> first
-    | exact ((finish_frame _ _).trans (settle_frame _)).pol
-    | exact (settle_frame _).pol
-
-theorem opSendW_fst (fuel : Nat) (st : St) (size : Nat) :
-    (st.opSendW fuel size).1 = (st.opSend fuel size).1 ∧
-    ((st.opSend fuel size).2.1 ≠ .outOfFuel → (st.opSendW fuel size).2.1 ≠ .outOfFuel) := by
-  unfold St.opSendW
-  simp only
-  split_ifs
-  · exact ⟨rfl, id⟩
-  · refine ⟨rfl, fun hne => ?_⟩
-    simp only
-    split
-    · simp
-    · exact hne
-
-theorem opSend_inv (fuel : Nat) (st : St) (size : Nat) (h : OpInv st) (hf : fuelFor st ≤ fuel) :
-    OpInv (st.opSend fuel size).1 ∧ (st.opSend fuel size).2.1 ≠ .outOfFuel ∧
-    fuelFor (st.opSend fuel size).1 = fuelFor st := by
-  unfold St.opSend
-  split_ifs
-  · refine ⟨settle_inv _ (finish_inv _ _ ⟨⟨⟨h.good.1.buf, h.good.1.pre, h.good.1.cur, h.good.1.once⟩, h.good.2⟩, h.size, h.bound⟩), by simp, ?_⟩
-    exact fuelFor_pol _ _ (((finish_frame _ _).trans (settle_frame _)).pol)
-  · obtain ⟨hi, hs⟩ := beginSend_rinv st size h.good
-    obtain ⟨hw, hne⟩ := withRetry_inv fuel (st.beginSend size) (.send size) hs hi h.size h.bound hf
-    refine ⟨endSend_inv _ _ hw, hne, ?_⟩
-    exact fuelFor_pol _ _ ((endSend_pol _ _).trans (withRetry_frame _ _ _).pol)
-
-theorem opRecv_inv (fuel : Nat) (s : St) (hs : OpInv s) (hfs : fuelFor s ≤ fuel) :
-    OpInv (s.opRecv fuel).1 ∧ (s.opRecv fuel).2.1 ≠ .outOfFuel ∧ fuelFor (s.opRecv fuel).1 = fuelFor s := by
-  unfold St.opRecv
-  obtain ⟨hw, hne⟩ := withRetry_inv fuel s .recv hs.good.2 ⟨hs.good.1.buf, hs.good.1.pre, hs.good.1.cur, hs.good.1.once⟩ hs.size hs.bound hfs
-  exact ⟨endRecv_inv _ _ hw, hne, fuelFor_pol _ _ ((endRecv_pol _ _).trans (withRetry_frame _ _ _).pol)⟩
-
-theorem step_inv (fuel : Nat) (st : St) (op : AppOp) (hop : op ≠ .new) (h : OpInv st) (hf : fuelFor st ≤ fuel) :
-    OpInv (st.step fuel op).1 ∧ (st.step fuel op).2.1 ≠ .outOfFuel ∧ fuelFor (st.step fuel op).1 = fuelFor st := by
-  cases op with
-  | new => exact absurd rfl hop
-  | cancel =>
-    simp only [St.step, St.opCancel]
-    exact ⟨settle_inv _ (finish_inv _ _ h), by simp, fuelFor_pol _ _ (((finish_frame _ _).trans (settle_frame _)).pol)⟩
-  | send size =>
-    have core := opSend_inv fuel st size h hf
-    have hw := opSendW_fst fuel st size
-    simp only [St.step]
-    rw [hw.1]
-    exact ⟨core.1, hw.2 core.2.1, core.2.2⟩
-  | close =>
-    simp only [St.step]
-    unfold St.opClose
-    split_ifs
-    · exact ⟨settle_inv _ h, by simp, rfl⟩
-    · obtain ⟨hi, hs⟩ := beginClose_rinv st h.good
-      obtain ⟨hw, _⟩ := withRetry_inv fuel st.beginClose .half hs hi h.size h.bound hf
-      exact ⟨settle_inv _ hw, by simp, fuelFor_pol _ _ (((settle_frame _).pol).trans (withRetry_frame _ st.beginClose _).pol)⟩
-  | recv =>
-    simp only [St.step, St.opRecvW]
-    have c1 := opRecv_inv fuel st h hf
-    split_ifs
-    · exact c1
-    · split
-      next n heq =>
-        have c2 := opRecv_inv fuel (st.opRecv fuel).1 c1.1 (by rw [c1.2.2]; exact hf)
-        refine ⟨c2.1, ?_, c2.2.2.trans c1.2.2⟩
-        simp only
-        split
-        · simp
-        · simp
-        · exact c2.2.1
-      · exact c1
-  | header =>
-    simp only [St.step]
-    unfold St.opHeader
-    obtain ⟨hw, hne⟩ := withRetry_inv fuel st .header h.good.2 ⟨h.good.1.buf, h.good.1.pre, h.good.1.cur, h.good.1.once⟩ h.size h.bound hf
-    refine ⟨endHeader_inv _ _ hw, ?_, fuelFor_pol _ _ ((endHeader_pol _ _).trans (withRetry_frame _ _ _).pol)⟩
-    simp only; split <;> simp_all
-
-theorem opNew_inv (st : St) (ha : st.atts = []) (hr : st.replay = []) (hh : st.hist = []) (hc : st.cs.committed = false)
-    (hz : st.replaySize = 0) (hn : st.cs.numRetries = 0) (hm : 0 ≤ st.maxBuf) : OpInv st.opNew.1 := by
-  unfold St.opNew
-  apply settle_inv
-  simp only [St.newAttempt, St.buffer, hc, Bool.false_eq_true, if_false, hz, ha, hr]
-  have hnot : ¬ (0 + 0 > st.maxBuf) := by omega
-  simp only [hnot, if_false]
-  refine ⟨⟨⟨?_, ?_, ?_, ?_⟩, rfl⟩, ?_, ⟨?_, ?_⟩⟩
-  · intro _; simp [wireOf, hh]
-  · intro a ha'; simp at ha'; subst ha'; simp [hh]
-  · intro a hca _; simp [St.cur] at hca; subst hca; simp [hh]
-  · intro _ _; simp [startsOnce]
-  · intro _; simp; omega
-  · intro a ha'; simp at ha'; subst ha'; simp
-  · exact ⟨by simp [hn], Or.inl (by simp [hn])⟩
-
-/-- a whole application script after `new` -/
-theorem run_inv (fuel : Nat) (ops : List AppOp) (st : St) (hops : ∀ o ∈ ops, o ≠ .new) (h : OpInv st) (hf : fuelFor st ≤ fuel) :
-    OpInv (St.run fuel st ops).1 ∧ (∀ r ∈ (St.run fuel st ops).2.1, r ≠ .outOfFuel) := by
-  induction ops generalizing st with
-  | nil => exact ⟨h, by simp [St.run]⟩
-  | cons o os ih =>
-    have hs := step_inv fuel st o (hops o (by simp)) h hf
-    have := ih (st.step fuel o).1 (fun x hx => hops x (by simp [hx])) hs.1 (by rw [hs.2.2]; exact hf)
-    simp only [St.run]
-    refine ⟨this.1, ?_⟩
-    intro r hr
-    simp only [List.mem_cons] at hr
-    rcases hr with hr | hr
-    · subst hr; exact hs.2.1
-    · exact this.2 r hr
-
-/-! committed states -/
-
-theorem finish_len_committed (st : St) (code : Nat) :
-    (st.finish code).atts.length = st.atts.length ∧ (st.cs.committed = true → (st.finish code).cs.committed = true) := by
-  have hl := (finishAttempt_same (({ st with cs := { st.cs with finished := true } } : St).commit) code)
-  simp only [St.finish]
-  split_ifs
-  · exact ⟨rfl, id⟩
-  · exact ⟨hl.len, fun _ => by simp only; rw [hl.cs]; rfl⟩
-  · exact ⟨hl.len, fun _ => by rw [hl.cs]; rfl⟩
-
-theorem settle_len (st : St) : st.settle.atts.length = st.atts.length := by simp [St.settle, react]
-
-theorem end_len (st : St) (res : Res) :
-    ((st.endSend res).atts.length = st.atts.length ∧ (st.cs.committed = true → (st.endSend res).cs.committed = true)) ∧
-    ((st.endRecv res).atts.length = st.atts.length ∧ (st.cs.committed = true → (st.endRecv res).cs.committed = true)) ∧
-    ((st.endHeader res).atts.length = st.atts.length ∧ (st.cs.committed = true → (st.endHeader res).cs.committed = true)) := by
-  refine ⟨?_, ?_, ?_⟩
-  · unfold St.endSend
-    split <;> first
-      | exact ⟨(settle_len _).trans (finish_len_committed _ _).1, fun h => (finish_len_committed _ _).2 h⟩
-      | exact ⟨settle_len _, id⟩
-  · unfold St.endRecv
-    split <;> first
-      | exact ⟨(settle_len _).trans (finish_len_committed _ _).1, fun h => (finish_len_committed _ _).2 h⟩
-      | exact ⟨settle_len _, id⟩
-  · unfold St.endHeader
-    split <;> first
-      | exact ⟨(settle_len _).trans (finish_len_committed _ _).1, fun h => (finish_len_committed _ _).2 h⟩
-      | exact ⟨settle_len _, id⟩
-
-theorem opRecv_committed (fuel : Nat) (st : St) (hc : st.cs.committed = true) :
-    (st.opRecv fuel).1.atts.length = st.atts.length ∧ (st.opRecv fuel).1.cs.committed = true := by
-  unfold St.opRecv
-  have hw := withRetry_committed_atts fuel st .recv hc
-  exact ⟨((end_len _ _).2.1.1).trans hw.1, (end_len _ _).2.1.2 hw.2⟩
-
-/-- once committed, no operation creates another attempt, and the stream stays committed -/
-theorem step_committed (fuel : Nat) (st : St) (op : AppOp) (hop : op ≠ .new) (hc : st.cs.committed = true) :
-    (st.step fuel op).1.atts.length = st.atts.length ∧ (st.step fuel op).1.cs.committed = true := by
-  cases op with
-  | new => exact absurd rfl hop
-  | cancel =>
-    simp only [St.step, St.opCancel]
-    exact ⟨(settle_len _).trans (finish_len_committed _ _).1, (finish_len_committed _ _).2 hc⟩
-  | send size =>
-    simp only [St.step]
-    rw [(opSendW_fst fuel st size).1]
-    unfold St.opSend
-    split_ifs
-    · exact ⟨(settle_len _).trans (finish_len_committed _ _).1, (finish_len_committed _ _).2 hc⟩
-    · have hw := withRetry_committed_atts fuel (st.beginSend size) (.send size) hc
-      exact ⟨((end_len _ _).1.1).trans hw.1, (end_len _ _).1.2 hw.2⟩
-  | close =>
-    simp only [St.step]
-    unfold St.opClose
-    split_ifs
-    · exact ⟨settle_len _, hc⟩
-    · have hw := withRetry_committed_atts fuel st.beginClose .half hc
-      exact ⟨(settle_len _).trans hw.1, hw.2⟩
-  | recv =>
-    simp only [St.step, St.opRecvW]
-    have c1 := opRecv_committed fuel st hc
-    split_ifs
-    · exact c1
-    · split
-      · have c2 := opRecv_committed fuel (st.opRecv fuel).1 c1.2
-        exact ⟨c2.1.trans c1.1, c2.2⟩
-      · exact c1
-  | header =>
-    simp only [St.step]
-    unfold St.opHeader
-    have hw := withRetry_committed_atts fuel st .header hc
-    exact ⟨((end_len _ _).2.2.1).trans hw.1, (end_len _ _).2.2.2 hw.2⟩
-
-theorem opRecv_delivery (fuel : Nat) (st : St) (h : (st.opRecv fuel).2.1.delivers = true) :
-    (st.opRecv fuel).1.cs.committed = true := by
-  unfold St.opRecv at h ⊢
-  exact (end_len _ _).2.1.2 (withRetry_delivery_commits fuel st .recv h)
-
-/-- an operation that hands a response header or message to the application leaves the stream committed -/
-theorem step_delivery_commits (fuel : Nat) (st : St) (op : AppOp) (hop : op ≠ .new)
-    (h : (st.step fuel op).2.1.delivers = true) : (st.step fuel op).1.cs.committed = true := by
-  cases op with
-  | new => exact absurd rfl hop
-  | cancel => simp [St.step, St.opCancel, Res.delivers] at h
-  | send size =>
-    simp only [St.step] at h ⊢
-    rw [(opSendW_fst fuel st size).1]
-    unfold St.opSendW at h
-    simp only at h
-    have key : (st.opSend fuel size).2.1.delivers = true → (st.opSend fuel size).1.cs.committed = true := by
-      intro hd
-      unfold St.opSend at hd ⊢
-      split_ifs at hd ⊢
-      · simp [Res.delivers] at hd
-      · exact (end_len _ _).1.2 (withRetry_delivery_commits fuel _ _ hd)
-    split_ifs at h
-    · exact key h
-    · apply key
-      simp only at h
-      split at h
-      · simp [Res.delivers] at h
-      · exact h
-  | close =>
-    simp only [St.step] at h
-    unfold St.opClose at h
-    split_ifs at h <;> simp [Res.delivers] at h
-  | recv =>
-    simp only [St.step, St.opRecvW] at h ⊢
-    split_ifs at h ⊢
-    · exact opRecv_delivery fuel st h
-    · cases heq : (st.opRecv fuel).2.1 with
-      | msg n =>
-        simp only [heq] at h ⊢
-        have c1 : (st.opRecv fuel).1.cs.committed = true := opRecv_delivery fuel st (by rw [heq]; rfl)
-        exact (opRecv_committed fuel _ c1).2
-      | hdr => simp only [heq]; exact opRecv_delivery fuel st (by rw [heq]; rfl)
-      | _ => simp [heq, Res.delivers] at h
-  | header =>
-    simp only [St.step] at h ⊢
-    unfold St.opHeader at h ⊢
-    simp only at h ⊢
-    apply (end_len _ _).2.2.2
-    apply withRetry_delivery_commits
-    split at h
-    · simp [Res.delivers] at h
-    · simp [Res.delivers] at h
-    · exact h
-
-/-! ### csAttempt.finish exactly once (C23) -/
-
-/-- Done bookkeeping: every attempt but the current one has been finished exactly once, no attempt
-    more than once, and after `clientStream.finish` every attempt exactly once. -/
-structure FInv (st : St) : Prop where
-  older : ∀ a ∈ st.atts.dropLast, a.finishCalls = 1
-  most : ∀ a ∈ st.atts, a.finishCalls ≤ 1
-  fin : st.cs.finished = true → (∀ a ∈ st.atts, a.finishCalls = 1) ∧ st.cs.committed = true
-
-theorem updCur_dropLast (st : St) (f : Att → Att) : (st.updCur f).atts.dropLast = st.atts.dropLast := by
-  cases h : st.cur with
-  | none => rw [updCur_none st f h]
-  | some a => rw [updCur_some st f a h]; simp
-
-/-- updating the current attempt without touching its finish count -/
-theorem updCur_finv (st : St) (f : Att → Att) (hf : ∀ a, (f a).finishCalls = a.finishCalls) (h : FInv st) :
-    FInv (st.updCur f) := by
-  have hcs := (updCur_same st f).cs
-  refine ⟨?_, ?_, ?_⟩
-  · rw [updCur_dropLast]; exact h.older
-  · intro x hx
-    rcases mem_updCur st f x hx with hx | ⟨a, hc, rfl⟩
-    · exact h.most x hx
-    · rw [hf]; exact h.most a (cur_mem st a hc)
-  · intro hfin
-    rw [hcs] at hfin ⊢
-    refine ⟨?_, (h.fin hfin).2⟩
-    intro x hx
-    rcases mem_updCur st f x hx with hx | ⟨a, hc, rfl⟩
-    · exact (h.fin hfin).1 x hx
-    · rw [hf]; exact (h.fin hfin).1 a (cur_mem st a hc)
-
-theorem write_finv (st : St) (w : Wire) (h : FInv st) : FInv (st.write w).1 := by
-  unfold St.write
-  split_ifs
-  · exact h
-  · exact updCur_finv st _ (fun _ => rfl) h
-
-theorem react_finv (st : St) (h : FInv st) : FInv { st with atts := react st.atts } := by
-  have key : ∀ a : Att, (if (!a.answered && !a.reset && a.beh.kind != .never && a.due) = true then { a with answered := true } else a).finishCalls = a.finishCalls := by
-    intro a; split_ifs <;> rfl
-  refine ⟨?_, ?_, ?_⟩
-  · intro x hx
-    simp only [react, ← List.map_dropLast, List.mem_map] at hx
-    obtain ⟨a, ha, rfl⟩ := hx
-    rw [key]; exact h.older a ha
-  · intro x hx
-    simp only [react, List.mem_map] at hx
-    obtain ⟨a, ha, rfl⟩ := hx
-    rw [key]; exact h.most a ha
-  · intro hfin
-    refine ⟨?_, (h.fin hfin).2⟩
-    intro x hx
-    simp only [react, List.mem_map] at hx
-    obtain ⟨a, ha, rfl⟩ := hx
-    rw [key]; exact (h.fin hfin).1 a ha
-
-theorem applyOp_finv (st : St) (op : COp) (h : FInv st) : FInv (st.applyOp op).1 := by
-  cases op with
-  | send size =>
-    simp only [St.applyOp]
-    repeat' split_ifs
-    all_goals first
-      | exact write_finv st _ h
-      | exact write_finv _ _ (write_finv st _ h)
-  | half => exact write_finv st _ h
-  | recv =>
-    have h1 := react_finv st h
-    have h2 := updCur_finv _ (fun a => { a with respRead := 1 }) (fun _ => rfl) h1
-    have h3 : FInv { ({ st with atts := react st.atts } : St).updCur (fun a => { a with respRead := 1 }) with recvFirst := true } :=
-      ⟨h2.older, h2.most, h2.fin⟩
-    simp only [St.applyOp]
-    repeat' (first | split_ifs | split)
-    all_goals first
-      | exact h1
-      | exact h3
-  | header =>
-    have h1 := react_finv st h
-    simp only [St.applyOp]
-    repeat' (first | split_ifs | split)
-    all_goals exact h1
-
-/-- `csAttempt.finish` on the current attempt: afterwards every attempt has been finished exactly once -/
-theorem finishAttempt_all (st : St) (code : Nat) (ho : ∀ a ∈ st.atts.dropLast, a.finishCalls = 1)
-    (hm : ∀ a ∈ st.atts, a.finishCalls ≤ 1) : ∀ x ∈ (st.finishAttempt code).atts, x.finishCalls = 1 := by
-  intro x hx
-  unfold St.finishAttempt at hx
-  cases hc : st.cur with
-  | none =>
-    rw [updCur_none st _ hc] at hx
-    have : st.atts = [] := List.getLast?_eq_none_iff.mp hc
-    rw [this] at hx; cases hx
-  | some a =>
-    rw [updCur_some st _ a hc] at hx
-    simp only [List.mem_append, List.mem_singleton] at hx
-    rcases hx with hx | hx
-    · exact ho x hx
-    · subst hx
-      by_cases hpos : a.finishCalls > 0
-      · simp only [hpos, if_true]
-        have := hm a (cur_mem st a hc); omega
-      · simp only [hpos, if_false]
-
-theorem finishAttempt_finv (st : St) (code : Nat) (h : FInv st) :
-    FInv (st.finishAttempt code) ∧ (∀ a ∈ (st.finishAttempt code).atts, a.finishCalls = 1) := by
-  have hcs := (finishAttempt_same st code).cs
-  have hmem := finishAttempt_all st code h.older h.most
-  refine ⟨⟨?_, ?_, ?_⟩, hmem⟩
-  · intro x hx; exact hmem x (List.mem_of_mem_dropLast hx)
-  · intro x hx; rw [hmem x hx]
-  · intro hfin; rw [hcs] at hfin ⊢; exact ⟨hmem, (h.fin hfin).2⟩
-
-theorem commit_finv (st : St) (h : FInv st) : FInv st.commit :=
-  ⟨h.older, h.most, fun hf => ⟨(h.fin hf).1, rfl⟩⟩
-
-theorem buffer_finv (st : St) (sz : Int) (op : ROp) (h : FInv st) : FInv (st.buffer sz op) := by
-  simp only [St.buffer]
-  split_ifs
-  · exact h
-  · exact commit_finv _ ⟨h.older, h.most, h.fin⟩
-  · exact ⟨h.older, h.most, h.fin⟩
-
-theorem sr_finished (dis : Bool) (pol : Option Policy) (cs : CS) (a : Attempt) (r : ℚ) (h : cs.finished = true) :
-    (shouldRetry dis pol cs a r).2 = .noRetry := by
-  unfold shouldRetry; simp [h]
-
-theorem decideRetry_finv (st : St) (raw : Raw) (h : FInv st) :
-    FInv (st.decideRetry raw).1 ∧ (∀ a ∈ (st.decideRetry raw).1.atts, a.finishCalls = 1) ∧
-    (st.cs.finished = true → (st.decideRetry raw).2 = .noRetry) := by
-  obtain ⟨h2, hall⟩ := finishAttempt_finv st raw.code h
-  have hs := finishAttempt_same st raw.code
-  simp only [St.decideRetry]
-  split
-  · exact ⟨h2, hall, fun _ => rfl⟩
-  next a _ =>
-    have hf := sr_other_fields (st.finishAttempt raw.code).disableRetry (st.finishAttempt raw.code).pol
-      (st.finishAttempt raw.code).cs (attemptView a) 0
-    refine ⟨⟨h2.older, h2.most, ?_⟩, hall, ?_⟩
-    · intro hfin
-      simp only at hfin ⊢
-      rw [hf.2.1] at hfin
-      rw [hf.2.2.1]
-      exact h2.fin hfin
-    · intro hfin
-      apply sr_finished
-      rw [hs.cs]; exact hfin
-
-
-/-- the buffer of a started, uncommitted RPC begins with its only stream-creating op -/
-def OnceInv (st : St) : Prop := st.cs.committed = false → st.atts.length ≠ 0 → startsOnce st.replay = true
-
-theorem write_replay (st : St) (w : Wire) : (st.write w).1.replay = st.replay := by
-  unfold St.write
-  split_ifs
-  · rfl
-  · exact (updCur_same st _).replay
-
-theorem applyOp_replay (st : St) (op : COp) : (st.applyOp op).1.replay = st.replay := by
-  cases op with
-  | send size =>
-    simp only [St.applyOp]
-    repeat' split_ifs
-    all_goals first
-      | exact write_replay st _
-      | exact (write_replay _ _).trans (write_replay st _)
-  | half => exact write_replay st _
-  | recv =>
-    have h2 := (updCur_same ({ st with atts := react st.atts } : St) (fun a => { a with respRead := 1 })).replay
-    simp only [St.applyOp]
-    repeat' (first | split_ifs | split)
-    all_goals first
-      | rfl
-      | exact h2
-  | header =>
-    simp only [St.applyOp]
-    repeat' (first | split_ifs | split)
-    all_goals rfl
-
-theorem replayAll_replay (st : St) : st.replayAll.1.replay = st.replay := by
-  unfold St.replayAll
-  generalize hr : st.replay = r
-  have key : ∀ (r : List ROp) (s : St) (evs : List Ev),
-      (r.foldl (fun (acc : St × List Ev) op =>
-        let (s, evs) := acc
-        match op with
-        | .start => let (s', e) := s.newAttempt; (s', evs ++ e)
-        | .msg q z =>
-          let (s', _, e) := s.write (.msg q z)
-          if s.clientStreams then (s', evs ++ e)
-          else let (s'', _, e2) := s'.write .half; (s'', evs ++ e ++ e2)
-        | .half => let (s', _, e) := s.write .half; (s', evs ++ e)) (s, evs)).1.replay = s.replay := by
-    intro r
-    induction r with
-    | nil => intro s evs; rfl
-    | cons o r ih =>
-      intro s evs
-      simp only [List.foldl_cons]
-      cases o with
-      | start => exact (ih _ _).trans rfl
-      | msg q z =>
-        simp only
-        split_ifs
-        · exact (ih _ _).trans (write_replay s _)
-        · exact (ih _ _).trans ((write_replay _ _).trans (write_replay s _))
-      | half => exact (ih _ _).trans (write_replay s _)
-  exact (key r st []).trans hr
-
-theorem buffer_once (st : St) (sz : Int) (op : ROp) (hop : op ≠ .start) (h : OnceInv st) : OnceInv (st.buffer sz op) := by
-  simp only [St.buffer, OnceInv]
-  split_ifs with hc
-  · exact h
-  · intro hf; simp [St.commit] at hf
-  · intro _ hs
-    exact startsOnce_append _ _ (h (by simpa using hc) hs) hop
-
-/-- FInv together with OnceInv is kept by `withRetry` -/
-def FO (st : St) : Prop := FInv st ∧ OnceInv st
-
-theorem withRetry_fo (fuel : Nat) (st : St) (op : COp) (h : FO st) : FO (St.withRetry fuel st op).1 := by
-  apply withRetry_preserves FO _ _ _ _ _ fuel st op h
-  · intro st op h
-    refine ⟨applyOp_finv st op h.1, ?_⟩
-    intro hc hs
-    rw [applyOp_cs] at hc; rw [(applyOp_rsize st op).2] at hs; rw [applyOp_replay]
-    exact h.2 hc hs
-  · intro st op h
-    cases op <;> simp only [St.onSuccess]
-    · exact ⟨buffer_finv _ _ _ h.1, buffer_once _ _ _ (by simp) h.2⟩
-    · exact ⟨buffer_finv _ _ _ h.1, buffer_once _ _ _ (by simp) h.2⟩
-    · exact ⟨commit_finv _ h.1, fun hf => by simp [St.commit] at hf⟩
-    · exact ⟨commit_finv _ h.1, fun hf => by simp [St.commit] at hf⟩
-  · intro st raw h
-    refine ⟨(decideRetry_finv st raw h.1).1, ?_⟩
-    intro hc hs
-    rw [(decideRetry_keep st raw).1] at hc
-    rw [(decideRetry_keep st raw).2.2] at hs
-    have hrep : (st.decideRetry raw).1.replay = st.replay := by
-      have := (finishAttempt_same st raw.code).replay
-      simp only [St.decideRetry]; split <;> exact this
-    rw [hrep]; exact h.2 hc hs
-  · intro st h; exact ⟨commit_finv _ h.1, fun hf => by simp [St.commit] at hf⟩
-  · intro st raw h hn he
-    obtain ⟨h3, hall, hfin⟩ := decideRetry_finv st raw h.1
-    have hrep : (st.decideRetry raw).1.replay = st.replay := by
-      have := (finishAttempt_same st raw.code).replay
-      simp only [St.decideRetry]; split <;> exact this
-    -- a positive decision is only taken while uncommitted and not finished
-    have hunf : st.cs.finished = false ∧ st.cs.committed = false := by
-      rcases decideRetry_spec st raw with ⟨h1, _⟩ | ⟨a, h1, _, _⟩
-      · exact absurd h1 hn
-      · cases hd : (st.decideRetry raw).2 with
-        | noRetry => exact absurd hd hn
-        | exhausted => exact absurd hd he
-        | transparent =>
-          obtain ⟨hf, hc, _⟩ := sr_transparent_conditions st.disableRetry st.pol st.cs (attemptView a) 0 (by rw [← h1, hd])
-          exact ⟨hf, hc⟩
-        | backoff dur fp =>
-          obtain ⟨pb, rp, hs, _⟩ := sr_backoff_conditions st.disableRetry st.pol st.cs (attemptView a) 0 dur fp (by rw [← h1, hd])
-          obtain ⟨_, _, _, _, _, hf, hc, _⟩ := stage_charged_pol st.disableRetry st.pol st.cs (attemptView a) pb hs
-          exact ⟨hf, hc⟩
-    have hu3 : (st.decideRetry raw).1.cs.committed = false := by rw [(decideRetry_keep st raw).1]; exact hunf.2
-    have hne3 : (st.decideRetry raw).1.atts.length ≠ 0 := by
-      rw [(decideRetry_keep st raw).2.2]
-      rcases decideRetry_spec st raw with ⟨h1, _⟩ | ⟨a, _, _, _⟩
-      · exact absurd h1 hn
-      · -- a current attempt exists: decideRetry found one
-        intro h0
-        have : st.atts = [] := List.length_eq_zero_iff.mp h0
-        have hcur : (st.finishAttempt raw.code).cur = none := by
-          have hl := (finishAttempt_same st raw.code).len
-          rw [h0] at hl
-          simp [St.cur, List.length_eq_zero_iff.mp hl]
-        have : (st.decideRetry raw).2 = .noRetry := by simp only [St.decideRetry, hcur]
-        exact hn this
-    have hso : startsOnce (st.decideRetry raw).1.replay = true := by
-      rw [hrep]
-      exact h.2 hunf.2 (by rw [← (decideRetry_keep st raw).2.2]; exact hne3)
-    obtain ⟨rest, hr, hns⟩ := startsOnce_split _ hso
-    have hspec := replayAll_spec { (st.decideRetry raw).1 with cs := afterDecision (st.decideRetry raw).1.cs (st.decideRetry raw).2 } rest hr hns
-    have hfin3 : (afterDecision (st.decideRetry raw).1.cs (st.decideRetry raw).2).finished = false := by
-      have e : (afterDecision (st.decideRetry raw).1.cs (st.decideRetry raw).2).finished = (st.decideRetry raw).1.cs.finished := by
-        cases (st.decideRetry raw).2 <;> rfl
-      rw [e]
-      cases hff : (st.decideRetry raw).1.cs.finished with
-      | false => rfl
-      | true =>
-        have := (h3.fin hff).2
-        rw [hu3] at this; cases this
-    unfold St.startRetry
-    rw [hspec]
-    refine ⟨⟨?_, ?_, ?_⟩, ?_⟩
-    · intro x hx
-      simp only [List.dropLast_concat] at hx
-      exact hall x hx
-    · intro x hx
-      simp only [List.mem_append, List.mem_singleton] at hx
-      rcases hx with hx | hx
-      · rw [hall x hx]
-      · subst hx; simp [freshAtt]
-    · intro hf; simp only at hf; rw [hfin3] at hf; cases hf
-    · intro _ _
-      simp only
-      exact hso
-
-theorem settle_fo (st : St) (h : FO st) : FO st.settle :=
-  ⟨react_finv st h.1, fun hc hl => h.2 hc (by simpa [St.settle, react] using hl)⟩
-
-theorem finish_fo (st : St) (code : Nat) (h : FO st) : FO (st.finish code) ∧
-    (∀ a ∈ (st.finish code).atts, a.finishCalls = 1) ∧ (st.finish code).cs.finished = true := by
-  by_cases hf : st.cs.finished = true
-  · have : st.finish code = st := by simp [St.finish, hf]
-    rw [this]; exact ⟨h, (h.1.fin hf).1, hf⟩
-  · set s1 : St := ({ st with cs := { st.cs with finished := true } } : St).commit with hs1
-    have hall := finishAttempt_all s1 code h.1.older h.1.most
-    have hsame := finishAttempt_same s1 code
-    have hcs : (s1.finishAttempt code).cs.finished = true ∧ (s1.finishAttempt code).cs.committed = true := by
-      rw [hsame.cs]; exact ⟨rfl, rfl⟩
-    have hfo : FO (s1.finishAttempt code) := by
-      refine ⟨⟨?_, ?_, ?_⟩, ?_⟩
-      · intro x hx; exact hall x (List.mem_of_mem_dropLast hx)
-      · intro x hx; rw [hall x hx]
-      · intro _; exact ⟨hall, hcs.2⟩
-      · intro hc; rw [hcs.2] at hc; cases hc
-    have hform : st.finish code = s1.finishAttempt code ∨
-        st.finish code = { s1.finishAttempt code with cs := { (s1.finishAttempt code).cs with throttler := successOpt (s1.finishAttempt code).cs.throttler } } := by
-      simp only [St.finish, hf, Bool.false_eq_true, if_false]
-      split_ifs
-      · right; rfl
-      · left; rfl
-    rcases hform with e | e
-    · rw [e]; exact ⟨hfo, hall, hcs.1⟩
-    · rw [e]
-      exact ⟨⟨⟨hfo.1.older, hfo.1.most, fun _ => ⟨hall, hcs.2⟩⟩, fun hc => by simp only at hc; rw [hcs.2] at hc; cases hc⟩, hall, hcs.1⟩
-
-theorem end_fo (st : St) (res : Res) (h : FO st) : FO (st.endSend res) ∧ FO (st.endRecv res) ∧ FO (st.endHeader res) := by
-  refine ⟨?_, ?_, ?_⟩
-  · unfold St.endSend
-    split <;> first
-      | exact settle_fo _ (finish_fo _ _ h).1
-      | exact settle_fo _ h
-  · unfold St.endRecv
-    split <;> first
-      | exact settle_fo _ (finish_fo _ _ h).1
-      | exact settle_fo _ h
-  · unfold St.endHeader
-    split <;> first
-      | exact settle_fo _ (finish_fo _ _ h).1
-      | exact settle_fo _ h
-
-theorem opRecv_fo (fuel : Nat) (st : St) (h : FO st) : FO (st.opRecv fuel).1 := by
-  unfold St.opRecv
-  exact (end_fo _ _ (withRetry_fo fuel st .recv h)).2.1
-
-theorem step_fo (fuel : Nat) (st : St) (op : AppOp) (hop : op ≠ .new) (h : FO st) : FO (st.step fuel op).1 := by
-  cases op with
-  | new => exact absurd rfl hop
-  | cancel => simp only [St.step, St.opCancel]; exact settle_fo _ (finish_fo _ _ h).1
-  | send size =>
-    simp only [St.step]
-    rw [(opSendW_fst fuel st size).1]
-    unfold St.opSend
-    split_ifs
-    · exact settle_fo _ (finish_fo ({ st with seq := st.seq + 1 } : St) 13 ⟨⟨h.1.older, h.1.most, h.1.fin⟩, h.2⟩).1
-    · exact (end_fo _ _ (withRetry_fo fuel (st.beginSend size) _ ⟨⟨h.1.older, h.1.most, h.1.fin⟩, h.2⟩)).1
-  | close =>
-    simp only [St.step]
-    unfold St.opClose
-    split_ifs
-    · exact settle_fo _ h
-    · exact settle_fo _ (withRetry_fo fuel st.beginClose _ ⟨⟨h.1.older, h.1.most, h.1.fin⟩, h.2⟩)
-  | recv =>
-    simp only [St.step, St.opRecvW]
-    split_ifs
-    · exact opRecv_fo fuel st h
-    · split
-      · exact opRecv_fo fuel _ (opRecv_fo fuel st h)
-      · exact opRecv_fo fuel st h
-  | header =>
-    simp only [St.step]
-    unfold St.opHeader
-    exact (end_fo _ _ (withRetry_fo fuel st .header h)).2.2
-
-theorem opNew_fo (st : St) (ha : st.atts = []) (hr : st.replay = []) (hc : st.cs.committed = false)
-    (hf : st.cs.finished = false) : FO st.opNew.1 := by
-  unfold St.opNew
-  apply settle_fo
-  simp only [St.newAttempt, St.buffer, hc, Bool.false_eq_true, if_false, ha, hr]
-  split_ifs
-  · refine ⟨⟨by simp [St.commit], by simp [St.commit], ?_⟩, ?_⟩
-    · intro hff; simp [St.commit, hf] at hff
-    · intro hcc; simp [St.commit] at hcc
-  · refine ⟨⟨by simp, by simp, ?_⟩, ?_⟩
-    · intro hff; simp [hf] at hff
-    · intro _ _; simp [startsOnce]
-
-theorem run_fo (fuel : Nat) (ops : List AppOp) (st : St) (hops : ∀ o ∈ ops, o ≠ .new) (h : FO st) :
-    FO (St.run fuel st ops).1 := by
-  induction ops generalizing st with
-  | nil => exact h
-  | cons o os ih =>
-    simp only [St.run]
-    exact ih _ (fun x hx => hops x (by simp [hx])) (step_fo fuel st o (hops o (by simp)) h)
-
-end GrpcProofs.Lemmas.RetryLoop
+import GrpcProofs.Lemmas.RetryLoopF
